@@ -132,7 +132,11 @@ fn c03_addr_template() {
     }
     t[p] = b':';
     p += 1;
-    t[p..p + 64].copy_from_slice(PK_HEX);
+    let mut q = 0;
+    while q < 64 {
+        t[p + q] = PK_HEX[q];
+        q += 1;
+    }
     let x0: u8 = kani::any();
     let x1: u8 = kani::any();
     t[p] = x0;
@@ -140,7 +144,9 @@ fn c03_addr_template() {
     p += 64;
     t[p] = b':';
     p += 1;
-    t[p..p + 3].copy_from_slice(&d);
+    t[p] = d[0];
+    t[p + 1] = d[1];
+    t[p + 2] = d[2];
     p += 3;
     let r = Addr::try_from_bytes(&t[..p]);
     match r {
@@ -248,23 +254,24 @@ fn tags_prefix_lastbyte(text: &[u8], lo: usize, hi: usize) {
 //@ timeout: 1200
 //@ mem: 12
 //@ covers: none
+//@ unwindset: tags_prefix_lastbyte=24; tags_outlens=40; filter_prefix_lastbyte=40; filter_outlens=60; memcmp.0=12; burn_string=12; eat_whitespace=6; read_u64=6; json_unescape=8
 //@ encodes: Tags::from_json, read_tags_array, count_tags, burn_tag, burn_string, read_tag, json_unescape
 //@ bounds: the valid text `[ ["a","b\n"] , [] ]` (20 bytes) cut at every length in the range named by the harness (concrete lengths, all 21 prefixes over the three harnesses), the last byte of each prefix arbitrary: no panic, consumed <= length, accessors total
 //@ outside: more than one arbitrary byte per input (2 arbitrary bytes: c03_tags_arb2); symbolic lengths (a symbolic length makes every bounds test fork: > 10 min / 12 GB in the probes)
 #[kani::proof]
-#[kani::unwind(26)]
+#[kani::unwind(8)]
 #[kani::stub(core::panic::Location::caller, stub_caller)]
 fn c03_tags_prefix_lastbyte_0_7() {
     tags_prefix_lastbyte(TAGS_T2, 0, 7);
 }
 #[kani::proof]
-#[kani::unwind(26)]
+#[kani::unwind(8)]
 #[kani::stub(core::panic::Location::caller, stub_caller)]
 fn c03_tags_prefix_lastbyte_8_14() {
     tags_prefix_lastbyte(TAGS_T2, 8, 14);
 }
 #[kani::proof]
-#[kani::unwind(26)]
+#[kani::unwind(8)]
 #[kani::stub(core::panic::Location::caller, stub_caller)]
 fn c03_tags_prefix_lastbyte_15_20() {
     tags_prefix_lastbyte(TAGS_T2, 15, 20);
@@ -275,7 +282,8 @@ fn tags_outlens(lo: usize, hi: usize) {
     let need = 4 + 6 + (2 + 3 + 4) + (2 + 3) + 2; // header, 3 offsets, ["e","ab"], ["p"], []
     let mut m = lo;
     while m <= hi {
-        let mut text = *TAGS_T1;
+        let mut text = [0u8; 21];
+    copy_text!(text, TAGS_T1);
         let v: u8 = kani::any();
         kani::assume(v >= 0x20 && v < 0x7f && v != b'"' && v != b'\\');
         text[8] = v; // the 'a' of "ab"
@@ -303,22 +311,23 @@ fn tags_outlens(lo: usize, hi: usize) {
 //@ timeout: 1200
 //@ mem: 12
 //@ covers: none
+//@ unwindset: tags_prefix_lastbyte=24; tags_outlens=40; filter_prefix_lastbyte=40; filter_outlens=60; memcmp.0=12; burn_string=12; eat_whitespace=6; read_u64=6; json_unescape=8
 //@ encodes: Tags::from_json, read_tags_array, read_tag, json_unescape, put
 //@ bounds: the valid text `[["e","ab"],["p"],[]]` with one arbitrary printable value byte, parsed into every output length in the range named by the harness (needs 26; all lengths 0..=34 over the three harnesses), arbitrary prior buffer contents: no panic, error below the needed size, success (with the right value) at and above it
 #[kani::proof]
-#[kani::unwind(26)]
+#[kani::unwind(8)]
 #[kani::stub(core::panic::Location::caller, stub_caller)]
 fn c03_tags_outlen_0_12() {
     tags_outlens(0, 12);
 }
 #[kani::proof]
-#[kani::unwind(26)]
+#[kani::unwind(8)]
 #[kani::stub(core::panic::Location::caller, stub_caller)]
 fn c03_tags_outlen_13_24() {
     tags_outlens(13, 24);
 }
 #[kani::proof]
-#[kani::unwind(26)]
+#[kani::unwind(8)]
 #[kani::stub(core::panic::Location::caller, stub_caller)]
 fn c03_tags_outlen_25_34() {
     tags_outlens(25, 34);
@@ -394,43 +403,45 @@ fn filter_prefix_lastbyte(text: &[u8], lo: usize, hi: usize) {
     }
 }
 
-//@ harness: c03_filter_prefix_lastbyte_0_9 c03_filter_prefix_lastbyte_10_18 c03_filter_prefix_lastbyte_19_27 c03_filter_prefix_lastbyte_28_36
+//@ harness: c03_filter_prefix_lastbyte_0_9 c03_filter_prefix_lastbyte_10_18 c03_filter_prefix_lastbyte_19_27 c03_filter_prefix_lastbyte_28_35
 //@ tier: quick
 //@ timeout: 1500
 //@ mem: 12
 //@ covers: none
+//@ unwindset: tags_prefix_lastbyte=24; tags_outlens=40; filter_prefix_lastbyte=40; filter_outlens=60; memcmp.0=12; burn_string=12; eat_whitespace=6; read_u64=6; json_unescape=8
 //@ encodes: Filter::from_json, parse_json_filter, burn_array, burn_key_and_value, json_unescape, read_u64
-//@ bounds: the valid text `{"kinds":[1],"#e":["ab"],"limit":3}` (36 bytes) cut at every length in the range named by the harness (all 37 prefixes over the four harnesses), last byte of each prefix arbitrary: no panic, consumed <= length
+//@ bounds: the valid text `{"kinds":[1],"#e":["ab"],"limit":3}` (35 bytes) cut at every length in the range named by the harness (all 36 prefixes over the four harnesses), last byte of each prefix arbitrary: no panic, consumed <= length
 #[kani::proof]
-#[kani::unwind(42)]
+#[kani::unwind(8)]
 #[kani::stub(core::panic::Location::caller, stub_caller)]
 fn c03_filter_prefix_lastbyte_0_9() {
     filter_prefix_lastbyte(FILTER_F2, 0, 9);
 }
 #[kani::proof]
-#[kani::unwind(42)]
+#[kani::unwind(8)]
 #[kani::stub(core::panic::Location::caller, stub_caller)]
 fn c03_filter_prefix_lastbyte_10_18() {
     filter_prefix_lastbyte(FILTER_F2, 10, 18);
 }
 #[kani::proof]
-#[kani::unwind(42)]
+#[kani::unwind(8)]
 #[kani::stub(core::panic::Location::caller, stub_caller)]
 fn c03_filter_prefix_lastbyte_19_27() {
     filter_prefix_lastbyte(FILTER_F2, 19, 27);
 }
 #[kani::proof]
-#[kani::unwind(42)]
+#[kani::unwind(8)]
 #[kani::stub(core::panic::Location::caller, stub_caller)]
-fn c03_filter_prefix_lastbyte_28_36() {
-    filter_prefix_lastbyte(FILTER_F2, 28, 36);
+fn c03_filter_prefix_lastbyte_28_35() {
+    filter_prefix_lastbyte(FILTER_F2, 28, 35);
 }
 
 fn filter_outlens(lo: usize, hi: usize) {
     let need = 32 + 2 + (4 + 2 + 2 + 3 + 4); // header, one kind, tags: header+offset, count, "e", "ab"
     let mut m = lo;
     while m <= hi {
-        let mut text = *FILTER_F2;
+        let mut text = [0u8; 36];
+    copy_text!(text, FILTER_F2);
         let v: u8 = kani::any();
         kani::assume(v >= 0x20 && v < 0x7f && v != b'"' && v != b'\\');
         text[20] = v; // the 'a' of "ab"
@@ -457,28 +468,29 @@ fn filter_outlens(lo: usize, hi: usize) {
 //@ timeout: 1500
 //@ mem: 12
 //@ covers: none
+//@ unwindset: tags_prefix_lastbyte=24; tags_outlens=40; filter_prefix_lastbyte=40; filter_outlens=60; memcmp.0=12; burn_string=12; eat_whitespace=6; read_u64=6; json_unescape=8
 //@ encodes: Filter::from_json, parse_json_filter, put
 //@ bounds: the valid text `{"kinds":[1],"#e":["ab"],"limit":3}` with one arbitrary printable value byte, parsed into every output length in the range named by the harness (needs 51; all lengths 0..=54), arbitrary prior buffer contents: no panic, error below the needed size
 #[kani::proof]
-#[kani::unwind(42)]
+#[kani::unwind(8)]
 #[kani::stub(core::panic::Location::caller, stub_caller)]
 fn c03_filter_outlen_0_20() {
     filter_outlens(0, 20);
 }
 #[kani::proof]
-#[kani::unwind(42)]
+#[kani::unwind(8)]
 #[kani::stub(core::panic::Location::caller, stub_caller)]
 fn c03_filter_outlen_21_36() {
     filter_outlens(21, 36);
 }
 #[kani::proof]
-#[kani::unwind(42)]
+#[kani::unwind(8)]
 #[kani::stub(core::panic::Location::caller, stub_caller)]
 fn c03_filter_outlen_37_46() {
     filter_outlens(37, 46);
 }
 #[kani::proof]
-#[kani::unwind(42)]
+#[kani::unwind(8)]
 #[kani::stub(core::panic::Location::caller, stub_caller)]
 fn c03_filter_outlen_47_54() {
     filter_outlens(47, 54);
@@ -501,7 +513,8 @@ fn walk_event(e: &Event) {
 /// the valid event text parsed into one concrete output length; one content byte arbitrary
 fn event_outlen_at(text: &[u8; 365], content_pos: usize, m: usize) {
     let need = 144 + 26 + 4 + 3;
-    let mut t = *text;
+    let mut t = [0u8; 365];
+    copy_text!(t, text);
     let v: u8 = kani::any();
     kani::assume(v >= 0x20 && v < 0x7f && v != b'"' && v != b'\\');
     t[content_pos] = v;
@@ -522,155 +535,484 @@ fn event_outlen_at(text: &[u8; 365], content_pos: usize, m: usize) {
     }
 }
 
-//@ harness: c03_event_outlen_o1_edge
+//@ harness: c03_event_outlen_o1_0
+//@ tier: seeded
+//@ group: event_outlen
+//@ timeout: 1500
+//@ mem: 14
+//@ covers: none
+//@ unwindset: read_sig=66; read_id=34; read_pubkey=34; read_hex=66; memcmp.0=34; event_outlen_at=400; event_prefix_at=400; read_u64=22; read_kind=8; burn_string=12; eat_whitespace=6; json_unescape=8
+//@ encodes: Event::from_json, parse_json_event, read_tags_array, read_tag, read_content, read_sig, read_id, read_pubkey, json_unescape, put
+//@ bounds: a valid 365-byte event text (tags [["e","ab"],["p"],[]], content "hi\n" with its first byte arbitrary; member order 1: tags before content, sig last) parsed into an output buffer of exactly 0 bytes (needs 177) with arbitrary prior contents: no panic; error below the needed size, success with the right content from it
+//@ outside: output lengths that are not an instance of this family; a symbolic output length (forks every bounds test: > 40 min in the probe); one parse per harness (two exceed 14 GB)
+#[kani::proof]
+#[kani::unwind(8)]
+#[kani::stub(core::panic::Location::caller, stub_caller)]
+fn c03_event_outlen_o1_0() {
+    event_outlen_at(EV_T1_O1, EV_T1_O1_CPOS, 0);
+}
+
+//@ harness: c03_event_outlen_o1_143
+//@ tier: seeded
+//@ group: event_outlen
+//@ timeout: 1500
+//@ mem: 14
+//@ covers: none
+//@ unwindset: read_sig=66; read_id=34; read_pubkey=34; read_hex=66; memcmp.0=34; event_outlen_at=400; event_prefix_at=400; read_u64=22; read_kind=8; burn_string=12; eat_whitespace=6; json_unescape=8
+//@ encodes: Event::from_json, parse_json_event, read_tags_array, read_tag, read_content, read_sig, read_id, read_pubkey, json_unescape, put
+//@ bounds: a valid 365-byte event text (tags [["e","ab"],["p"],[]], content "hi\n" with its first byte arbitrary; member order 1: tags before content, sig last) parsed into an output buffer of exactly 143 bytes (needs 177) with arbitrary prior contents: no panic; error below the needed size, success with the right content from it
+//@ outside: output lengths that are not an instance of this family; a symbolic output length (forks every bounds test: > 40 min in the probe); one parse per harness (two exceed 14 GB)
+#[kani::proof]
+#[kani::unwind(8)]
+#[kani::stub(core::panic::Location::caller, stub_caller)]
+fn c03_event_outlen_o1_143() {
+    event_outlen_at(EV_T1_O1, EV_T1_O1_CPOS, 143);
+}
+
+//@ harness: c03_event_outlen_o1_151
+//@ tier: seeded
+//@ group: event_outlen
+//@ timeout: 1500
+//@ mem: 14
+//@ covers: none
+//@ unwindset: read_sig=66; read_id=34; read_pubkey=34; read_hex=66; memcmp.0=34; event_outlen_at=400; event_prefix_at=400; read_u64=22; read_kind=8; burn_string=12; eat_whitespace=6; json_unescape=8
+//@ encodes: Event::from_json, parse_json_event, read_tags_array, read_tag, read_content, read_sig, read_id, read_pubkey, json_unescape, put
+//@ bounds: a valid 365-byte event text (tags [["e","ab"],["p"],[]], content "hi\n" with its first byte arbitrary; member order 1: tags before content, sig last) parsed into an output buffer of exactly 151 bytes (needs 177) with arbitrary prior contents: no panic; error below the needed size, success with the right content from it
+//@ outside: output lengths that are not an instance of this family; a symbolic output length (forks every bounds test: > 40 min in the probe); one parse per harness (two exceed 14 GB)
+#[kani::proof]
+#[kani::unwind(8)]
+#[kani::stub(core::panic::Location::caller, stub_caller)]
+fn c03_event_outlen_o1_151() {
+    event_outlen_at(EV_T1_O1, EV_T1_O1_CPOS, 151);
+}
+
+//@ harness: c03_event_outlen_o1_152
+//@ tier: seeded
+//@ group: event_outlen
+//@ timeout: 1500
+//@ mem: 14
+//@ covers: none
+//@ unwindset: read_sig=66; read_id=34; read_pubkey=34; read_hex=66; memcmp.0=34; event_outlen_at=400; event_prefix_at=400; read_u64=22; read_kind=8; burn_string=12; eat_whitespace=6; json_unescape=8
+//@ encodes: Event::from_json, parse_json_event, read_tags_array, read_tag, read_content, read_sig, read_id, read_pubkey, json_unescape, put
+//@ bounds: a valid 365-byte event text (tags [["e","ab"],["p"],[]], content "hi\n" with its first byte arbitrary; member order 1: tags before content, sig last) parsed into an output buffer of exactly 152 bytes (needs 177) with arbitrary prior contents: no panic; error below the needed size, success with the right content from it
+//@ outside: output lengths that are not an instance of this family; a symbolic output length (forks every bounds test: > 40 min in the probe); one parse per harness (two exceed 14 GB)
+#[kani::proof]
+#[kani::unwind(8)]
+#[kani::stub(core::panic::Location::caller, stub_caller)]
+fn c03_event_outlen_o1_152() {
+    event_outlen_at(EV_T1_O1, EV_T1_O1_CPOS, 152);
+}
+
+//@ harness: c03_event_outlen_o1_153
+//@ tier: seeded
+//@ group: event_outlen
+//@ timeout: 1500
+//@ mem: 14
+//@ covers: none
+//@ unwindset: read_sig=66; read_id=34; read_pubkey=34; read_hex=66; memcmp.0=34; event_outlen_at=400; event_prefix_at=400; read_u64=22; read_kind=8; burn_string=12; eat_whitespace=6; json_unescape=8
+//@ encodes: Event::from_json, parse_json_event, read_tags_array, read_tag, read_content, read_sig, read_id, read_pubkey, json_unescape, put
+//@ bounds: a valid 365-byte event text (tags [["e","ab"],["p"],[]], content "hi\n" with its first byte arbitrary; member order 1: tags before content, sig last) parsed into an output buffer of exactly 153 bytes (needs 177) with arbitrary prior contents: no panic; error below the needed size, success with the right content from it
+//@ outside: output lengths that are not an instance of this family; a symbolic output length (forks every bounds test: > 40 min in the probe); one parse per harness (two exceed 14 GB)
+#[kani::proof]
+#[kani::unwind(8)]
+#[kani::stub(core::panic::Location::caller, stub_caller)]
+fn c03_event_outlen_o1_153() {
+    event_outlen_at(EV_T1_O1, EV_T1_O1_CPOS, 153);
+}
+
+//@ harness: c03_event_outlen_o1_158
+//@ tier: seeded
+//@ group: event_outlen
+//@ timeout: 1500
+//@ mem: 14
+//@ covers: none
+//@ unwindset: read_sig=66; read_id=34; read_pubkey=34; read_hex=66; memcmp.0=34; event_outlen_at=400; event_prefix_at=400; read_u64=22; read_kind=8; burn_string=12; eat_whitespace=6; json_unescape=8
+//@ encodes: Event::from_json, parse_json_event, read_tags_array, read_tag, read_content, read_sig, read_id, read_pubkey, json_unescape, put
+//@ bounds: a valid 365-byte event text (tags [["e","ab"],["p"],[]], content "hi\n" with its first byte arbitrary; member order 1: tags before content, sig last) parsed into an output buffer of exactly 158 bytes (needs 177) with arbitrary prior contents: no panic; error below the needed size, success with the right content from it
+//@ outside: output lengths that are not an instance of this family; a symbolic output length (forks every bounds test: > 40 min in the probe); one parse per harness (two exceed 14 GB)
+#[kani::proof]
+#[kani::unwind(8)]
+#[kani::stub(core::panic::Location::caller, stub_caller)]
+fn c03_event_outlen_o1_158() {
+    event_outlen_at(EV_T1_O1, EV_T1_O1_CPOS, 158);
+}
+
+//@ harness: c03_event_outlen_o1_163
+//@ tier: seeded
+//@ group: event_outlen
+//@ timeout: 1500
+//@ mem: 14
+//@ covers: none
+//@ unwindset: read_sig=66; read_id=34; read_pubkey=34; read_hex=66; memcmp.0=34; event_outlen_at=400; event_prefix_at=400; read_u64=22; read_kind=8; burn_string=12; eat_whitespace=6; json_unescape=8
+//@ encodes: Event::from_json, parse_json_event, read_tags_array, read_tag, read_content, read_sig, read_id, read_pubkey, json_unescape, put
+//@ bounds: a valid 365-byte event text (tags [["e","ab"],["p"],[]], content "hi\n" with its first byte arbitrary; member order 1: tags before content, sig last) parsed into an output buffer of exactly 163 bytes (needs 177) with arbitrary prior contents: no panic; error below the needed size, success with the right content from it
+//@ outside: output lengths that are not an instance of this family; a symbolic output length (forks every bounds test: > 40 min in the probe); one parse per harness (two exceed 14 GB)
+#[kani::proof]
+#[kani::unwind(8)]
+#[kani::stub(core::panic::Location::caller, stub_caller)]
+fn c03_event_outlen_o1_163() {
+    event_outlen_at(EV_T1_O1, EV_T1_O1_CPOS, 163);
+}
+
+//@ harness: c03_event_outlen_o1_170
+//@ tier: seeded
+//@ group: event_outlen
+//@ timeout: 1500
+//@ mem: 14
+//@ covers: none
+//@ unwindset: read_sig=66; read_id=34; read_pubkey=34; read_hex=66; memcmp.0=34; event_outlen_at=400; event_prefix_at=400; read_u64=22; read_kind=8; burn_string=12; eat_whitespace=6; json_unescape=8
+//@ encodes: Event::from_json, parse_json_event, read_tags_array, read_tag, read_content, read_sig, read_id, read_pubkey, json_unescape, put
+//@ bounds: a valid 365-byte event text (tags [["e","ab"],["p"],[]], content "hi\n" with its first byte arbitrary; member order 1: tags before content, sig last) parsed into an output buffer of exactly 170 bytes (needs 177) with arbitrary prior contents: no panic; error below the needed size, success with the right content from it
+//@ outside: output lengths that are not an instance of this family; a symbolic output length (forks every bounds test: > 40 min in the probe); one parse per harness (two exceed 14 GB)
+#[kani::proof]
+#[kani::unwind(8)]
+#[kani::stub(core::panic::Location::caller, stub_caller)]
+fn c03_event_outlen_o1_170() {
+    event_outlen_at(EV_T1_O1, EV_T1_O1_CPOS, 170);
+}
+
+//@ harness: c03_event_outlen_o1_171
+//@ tier: seeded
+//@ group: event_outlen
+//@ timeout: 1500
+//@ mem: 14
+//@ covers: none
+//@ unwindset: read_sig=66; read_id=34; read_pubkey=34; read_hex=66; memcmp.0=34; event_outlen_at=400; event_prefix_at=400; read_u64=22; read_kind=8; burn_string=12; eat_whitespace=6; json_unescape=8
+//@ encodes: Event::from_json, parse_json_event, read_tags_array, read_tag, read_content, read_sig, read_id, read_pubkey, json_unescape, put
+//@ bounds: a valid 365-byte event text (tags [["e","ab"],["p"],[]], content "hi\n" with its first byte arbitrary; member order 1: tags before content, sig last) parsed into an output buffer of exactly 171 bytes (needs 177) with arbitrary prior contents: no panic; error below the needed size, success with the right content from it
+//@ outside: output lengths that are not an instance of this family; a symbolic output length (forks every bounds test: > 40 min in the probe); one parse per harness (two exceed 14 GB)
+#[kani::proof]
+#[kani::unwind(8)]
+#[kani::stub(core::panic::Location::caller, stub_caller)]
+fn c03_event_outlen_o1_171() {
+    event_outlen_at(EV_T1_O1, EV_T1_O1_CPOS, 171);
+}
+
+//@ harness: c03_event_outlen_o1_173
+//@ tier: seeded
+//@ group: event_outlen
+//@ timeout: 1500
+//@ mem: 14
+//@ covers: none
+//@ unwindset: read_sig=66; read_id=34; read_pubkey=34; read_hex=66; memcmp.0=34; event_outlen_at=400; event_prefix_at=400; read_u64=22; read_kind=8; burn_string=12; eat_whitespace=6; json_unescape=8
+//@ encodes: Event::from_json, parse_json_event, read_tags_array, read_tag, read_content, read_sig, read_id, read_pubkey, json_unescape, put
+//@ bounds: a valid 365-byte event text (tags [["e","ab"],["p"],[]], content "hi\n" with its first byte arbitrary; member order 1: tags before content, sig last) parsed into an output buffer of exactly 173 bytes (needs 177) with arbitrary prior contents: no panic; error below the needed size, success with the right content from it
+//@ outside: output lengths that are not an instance of this family; a symbolic output length (forks every bounds test: > 40 min in the probe); one parse per harness (two exceed 14 GB)
+#[kani::proof]
+#[kani::unwind(8)]
+#[kani::stub(core::panic::Location::caller, stub_caller)]
+fn c03_event_outlen_o1_173() {
+    event_outlen_at(EV_T1_O1, EV_T1_O1_CPOS, 173);
+}
+
+//@ harness: c03_event_outlen_o1_175
+//@ tier: seeded
+//@ group: event_outlen
+//@ timeout: 1500
+//@ mem: 14
+//@ covers: none
+//@ unwindset: read_sig=66; read_id=34; read_pubkey=34; read_hex=66; memcmp.0=34; event_outlen_at=400; event_prefix_at=400; read_u64=22; read_kind=8; burn_string=12; eat_whitespace=6; json_unescape=8
+//@ encodes: Event::from_json, parse_json_event, read_tags_array, read_tag, read_content, read_sig, read_id, read_pubkey, json_unescape, put
+//@ bounds: a valid 365-byte event text (tags [["e","ab"],["p"],[]], content "hi\n" with its first byte arbitrary; member order 1: tags before content, sig last) parsed into an output buffer of exactly 175 bytes (needs 177) with arbitrary prior contents: no panic; error below the needed size, success with the right content from it
+//@ outside: output lengths that are not an instance of this family; a symbolic output length (forks every bounds test: > 40 min in the probe); one parse per harness (two exceed 14 GB)
+#[kani::proof]
+#[kani::unwind(8)]
+#[kani::stub(core::panic::Location::caller, stub_caller)]
+fn c03_event_outlen_o1_175() {
+    event_outlen_at(EV_T1_O1, EV_T1_O1_CPOS, 175);
+}
+
+//@ harness: c03_event_outlen_o1_176
 //@ tier: quick
-//@ timeout: 1800
+//@ timeout: 1500
 //@ mem: 14
 //@ covers: none
-//@ unwindset: read_sig=66; read_id=34; read_pubkey=34; read_hex=66; memcmp.0=34
+//@ unwindset: read_sig=66; read_id=34; read_pubkey=34; read_hex=66; memcmp.0=34; event_outlen_at=400; event_prefix_at=400; read_u64=22; read_kind=8; burn_string=12; eat_whitespace=6; json_unescape=8
 //@ encodes: Event::from_json, parse_json_event, read_tags_array, read_tag, read_content, read_sig, read_id, read_pubkey, json_unescape, put
-//@ bounds: a valid 365-byte event text (tags [["e","ab"],["p"],[]], content "hi\n" with its first byte arbitrary; member order 1: tags before content, sig last) parsed into the concrete output lengths [151, 152, 176, 177] (needs 177), arbitrary prior buffer contents: no panic; error below the needed size, success with the right content from it
-//@ outside: output lengths not listed in an instance of this family; symbolic output length (forks every bounds test: > 40 min in the probe)
+//@ bounds: a valid 365-byte event text (tags [["e","ab"],["p"],[]], content "hi\n" with its first byte arbitrary; member order 1: tags before content, sig last) parsed into an output buffer of exactly 176 bytes (needs 177) with arbitrary prior contents: no panic; error below the needed size, success with the right content from it
+//@ outside: output lengths that are not an instance of this family; a symbolic output length (forks every bounds test: > 40 min in the probe); one parse per harness (two exceed 14 GB)
 #[kani::proof]
-#[kani::unwind(32)]
+#[kani::unwind(8)]
 #[kani::stub(core::panic::Location::caller, stub_caller)]
-fn c03_event_outlen_o1_edge() {
-    let p = EV_T1_O1_CPOS;
-    event_outlen_at(EV_T1_O1, p, 151);
-    event_outlen_at(EV_T1_O1, p, 152);
-    event_outlen_at(EV_T1_O1, p, 176);
-    event_outlen_at(EV_T1_O1, p, 177);
+fn c03_event_outlen_o1_176() {
+    event_outlen_at(EV_T1_O1, EV_T1_O1_CPOS, 176);
 }
 
-//@ harness: c03_event_outlen_o2_edge
+//@ harness: c03_event_outlen_o1_177
+//@ tier: seeded
+//@ group: event_outlen
+//@ timeout: 1500
+//@ mem: 14
+//@ covers: none
+//@ unwindset: read_sig=66; read_id=34; read_pubkey=34; read_hex=66; memcmp.0=34; event_outlen_at=400; event_prefix_at=400; read_u64=22; read_kind=8; burn_string=12; eat_whitespace=6; json_unescape=8
+//@ encodes: Event::from_json, parse_json_event, read_tags_array, read_tag, read_content, read_sig, read_id, read_pubkey, json_unescape, put
+//@ bounds: a valid 365-byte event text (tags [["e","ab"],["p"],[]], content "hi\n" with its first byte arbitrary; member order 1: tags before content, sig last) parsed into an output buffer of exactly 177 bytes (needs 177) with arbitrary prior contents: no panic; error below the needed size, success with the right content from it
+//@ outside: output lengths that are not an instance of this family; a symbolic output length (forks every bounds test: > 40 min in the probe); one parse per harness (two exceed 14 GB)
+#[kani::proof]
+#[kani::unwind(8)]
+#[kani::stub(core::panic::Location::caller, stub_caller)]
+fn c03_event_outlen_o1_177() {
+    event_outlen_at(EV_T1_O1, EV_T1_O1_CPOS, 177);
+}
+
+//@ harness: c03_event_outlen_o1_178
+//@ tier: seeded
+//@ group: event_outlen
+//@ timeout: 1500
+//@ mem: 14
+//@ covers: none
+//@ unwindset: read_sig=66; read_id=34; read_pubkey=34; read_hex=66; memcmp.0=34; event_outlen_at=400; event_prefix_at=400; read_u64=22; read_kind=8; burn_string=12; eat_whitespace=6; json_unescape=8
+//@ encodes: Event::from_json, parse_json_event, read_tags_array, read_tag, read_content, read_sig, read_id, read_pubkey, json_unescape, put
+//@ bounds: a valid 365-byte event text (tags [["e","ab"],["p"],[]], content "hi\n" with its first byte arbitrary; member order 1: tags before content, sig last) parsed into an output buffer of exactly 178 bytes (needs 177) with arbitrary prior contents: no panic; error below the needed size, success with the right content from it
+//@ outside: output lengths that are not an instance of this family; a symbolic output length (forks every bounds test: > 40 min in the probe); one parse per harness (two exceed 14 GB)
+#[kani::proof]
+#[kani::unwind(8)]
+#[kani::stub(core::panic::Location::caller, stub_caller)]
+fn c03_event_outlen_o1_178() {
+    event_outlen_at(EV_T1_O1, EV_T1_O1_CPOS, 178);
+}
+
+//@ harness: c03_event_outlen_o2_0
+//@ tier: seeded
+//@ group: event_outlen
+//@ timeout: 1500
+//@ mem: 14
+//@ covers: none
+//@ unwindset: read_sig=66; read_id=34; read_pubkey=34; read_hex=66; memcmp.0=34; event_outlen_at=400; event_prefix_at=400; read_u64=22; read_kind=8; burn_string=12; eat_whitespace=6; json_unescape=8
+//@ encodes: Event::from_json, parse_json_event, read_tags_array, read_tag, read_content, read_sig, read_id, read_pubkey, json_unescape, put
+//@ bounds: a valid 365-byte event text (tags [["e","ab"],["p"],[]], content "hi\n" with its first byte arbitrary; member order 2: content before tags - deferred content -, id last) parsed into an output buffer of exactly 0 bytes (needs 177) with arbitrary prior contents: no panic; error below the needed size, success with the right content from it
+//@ outside: output lengths that are not an instance of this family; a symbolic output length (forks every bounds test: > 40 min in the probe); one parse per harness (two exceed 14 GB)
+#[kani::proof]
+#[kani::unwind(8)]
+#[kani::stub(core::panic::Location::caller, stub_caller)]
+fn c03_event_outlen_o2_0() {
+    event_outlen_at(EV_T1_O2, EV_T1_O2_CPOS, 0);
+}
+
+//@ harness: c03_event_outlen_o2_143
+//@ tier: seeded
+//@ group: event_outlen
+//@ timeout: 1500
+//@ mem: 14
+//@ covers: none
+//@ unwindset: read_sig=66; read_id=34; read_pubkey=34; read_hex=66; memcmp.0=34; event_outlen_at=400; event_prefix_at=400; read_u64=22; read_kind=8; burn_string=12; eat_whitespace=6; json_unescape=8
+//@ encodes: Event::from_json, parse_json_event, read_tags_array, read_tag, read_content, read_sig, read_id, read_pubkey, json_unescape, put
+//@ bounds: a valid 365-byte event text (tags [["e","ab"],["p"],[]], content "hi\n" with its first byte arbitrary; member order 2: content before tags - deferred content -, id last) parsed into an output buffer of exactly 143 bytes (needs 177) with arbitrary prior contents: no panic; error below the needed size, success with the right content from it
+//@ outside: output lengths that are not an instance of this family; a symbolic output length (forks every bounds test: > 40 min in the probe); one parse per harness (two exceed 14 GB)
+#[kani::proof]
+#[kani::unwind(8)]
+#[kani::stub(core::panic::Location::caller, stub_caller)]
+fn c03_event_outlen_o2_143() {
+    event_outlen_at(EV_T1_O2, EV_T1_O2_CPOS, 143);
+}
+
+//@ harness: c03_event_outlen_o2_151
+//@ tier: seeded
+//@ group: event_outlen
+//@ timeout: 1500
+//@ mem: 14
+//@ covers: none
+//@ unwindset: read_sig=66; read_id=34; read_pubkey=34; read_hex=66; memcmp.0=34; event_outlen_at=400; event_prefix_at=400; read_u64=22; read_kind=8; burn_string=12; eat_whitespace=6; json_unescape=8
+//@ encodes: Event::from_json, parse_json_event, read_tags_array, read_tag, read_content, read_sig, read_id, read_pubkey, json_unescape, put
+//@ bounds: a valid 365-byte event text (tags [["e","ab"],["p"],[]], content "hi\n" with its first byte arbitrary; member order 2: content before tags - deferred content -, id last) parsed into an output buffer of exactly 151 bytes (needs 177) with arbitrary prior contents: no panic; error below the needed size, success with the right content from it
+//@ outside: output lengths that are not an instance of this family; a symbolic output length (forks every bounds test: > 40 min in the probe); one parse per harness (two exceed 14 GB)
+#[kani::proof]
+#[kani::unwind(8)]
+#[kani::stub(core::panic::Location::caller, stub_caller)]
+fn c03_event_outlen_o2_151() {
+    event_outlen_at(EV_T1_O2, EV_T1_O2_CPOS, 151);
+}
+
+//@ harness: c03_event_outlen_o2_152
+//@ tier: seeded
+//@ group: event_outlen
+//@ timeout: 1500
+//@ mem: 14
+//@ covers: none
+//@ unwindset: read_sig=66; read_id=34; read_pubkey=34; read_hex=66; memcmp.0=34; event_outlen_at=400; event_prefix_at=400; read_u64=22; read_kind=8; burn_string=12; eat_whitespace=6; json_unescape=8
+//@ encodes: Event::from_json, parse_json_event, read_tags_array, read_tag, read_content, read_sig, read_id, read_pubkey, json_unescape, put
+//@ bounds: a valid 365-byte event text (tags [["e","ab"],["p"],[]], content "hi\n" with its first byte arbitrary; member order 2: content before tags - deferred content -, id last) parsed into an output buffer of exactly 152 bytes (needs 177) with arbitrary prior contents: no panic; error below the needed size, success with the right content from it
+//@ outside: output lengths that are not an instance of this family; a symbolic output length (forks every bounds test: > 40 min in the probe); one parse per harness (two exceed 14 GB)
+#[kani::proof]
+#[kani::unwind(8)]
+#[kani::stub(core::panic::Location::caller, stub_caller)]
+fn c03_event_outlen_o2_152() {
+    event_outlen_at(EV_T1_O2, EV_T1_O2_CPOS, 152);
+}
+
+//@ harness: c03_event_outlen_o2_153
+//@ tier: seeded
+//@ group: event_outlen
+//@ timeout: 1500
+//@ mem: 14
+//@ covers: none
+//@ unwindset: read_sig=66; read_id=34; read_pubkey=34; read_hex=66; memcmp.0=34; event_outlen_at=400; event_prefix_at=400; read_u64=22; read_kind=8; burn_string=12; eat_whitespace=6; json_unescape=8
+//@ encodes: Event::from_json, parse_json_event, read_tags_array, read_tag, read_content, read_sig, read_id, read_pubkey, json_unescape, put
+//@ bounds: a valid 365-byte event text (tags [["e","ab"],["p"],[]], content "hi\n" with its first byte arbitrary; member order 2: content before tags - deferred content -, id last) parsed into an output buffer of exactly 153 bytes (needs 177) with arbitrary prior contents: no panic; error below the needed size, success with the right content from it
+//@ outside: output lengths that are not an instance of this family; a symbolic output length (forks every bounds test: > 40 min in the probe); one parse per harness (two exceed 14 GB)
+#[kani::proof]
+#[kani::unwind(8)]
+#[kani::stub(core::panic::Location::caller, stub_caller)]
+fn c03_event_outlen_o2_153() {
+    event_outlen_at(EV_T1_O2, EV_T1_O2_CPOS, 153);
+}
+
+//@ harness: c03_event_outlen_o2_158
+//@ tier: seeded
+//@ group: event_outlen
+//@ timeout: 1500
+//@ mem: 14
+//@ covers: none
+//@ unwindset: read_sig=66; read_id=34; read_pubkey=34; read_hex=66; memcmp.0=34; event_outlen_at=400; event_prefix_at=400; read_u64=22; read_kind=8; burn_string=12; eat_whitespace=6; json_unescape=8
+//@ encodes: Event::from_json, parse_json_event, read_tags_array, read_tag, read_content, read_sig, read_id, read_pubkey, json_unescape, put
+//@ bounds: a valid 365-byte event text (tags [["e","ab"],["p"],[]], content "hi\n" with its first byte arbitrary; member order 2: content before tags - deferred content -, id last) parsed into an output buffer of exactly 158 bytes (needs 177) with arbitrary prior contents: no panic; error below the needed size, success with the right content from it
+//@ outside: output lengths that are not an instance of this family; a symbolic output length (forks every bounds test: > 40 min in the probe); one parse per harness (two exceed 14 GB)
+#[kani::proof]
+#[kani::unwind(8)]
+#[kani::stub(core::panic::Location::caller, stub_caller)]
+fn c03_event_outlen_o2_158() {
+    event_outlen_at(EV_T1_O2, EV_T1_O2_CPOS, 158);
+}
+
+//@ harness: c03_event_outlen_o2_163
+//@ tier: seeded
+//@ group: event_outlen
+//@ timeout: 1500
+//@ mem: 14
+//@ covers: none
+//@ unwindset: read_sig=66; read_id=34; read_pubkey=34; read_hex=66; memcmp.0=34; event_outlen_at=400; event_prefix_at=400; read_u64=22; read_kind=8; burn_string=12; eat_whitespace=6; json_unescape=8
+//@ encodes: Event::from_json, parse_json_event, read_tags_array, read_tag, read_content, read_sig, read_id, read_pubkey, json_unescape, put
+//@ bounds: a valid 365-byte event text (tags [["e","ab"],["p"],[]], content "hi\n" with its first byte arbitrary; member order 2: content before tags - deferred content -, id last) parsed into an output buffer of exactly 163 bytes (needs 177) with arbitrary prior contents: no panic; error below the needed size, success with the right content from it
+//@ outside: output lengths that are not an instance of this family; a symbolic output length (forks every bounds test: > 40 min in the probe); one parse per harness (two exceed 14 GB)
+#[kani::proof]
+#[kani::unwind(8)]
+#[kani::stub(core::panic::Location::caller, stub_caller)]
+fn c03_event_outlen_o2_163() {
+    event_outlen_at(EV_T1_O2, EV_T1_O2_CPOS, 163);
+}
+
+//@ harness: c03_event_outlen_o2_170
+//@ tier: seeded
+//@ group: event_outlen
+//@ timeout: 1500
+//@ mem: 14
+//@ covers: none
+//@ unwindset: read_sig=66; read_id=34; read_pubkey=34; read_hex=66; memcmp.0=34; event_outlen_at=400; event_prefix_at=400; read_u64=22; read_kind=8; burn_string=12; eat_whitespace=6; json_unescape=8
+//@ encodes: Event::from_json, parse_json_event, read_tags_array, read_tag, read_content, read_sig, read_id, read_pubkey, json_unescape, put
+//@ bounds: a valid 365-byte event text (tags [["e","ab"],["p"],[]], content "hi\n" with its first byte arbitrary; member order 2: content before tags - deferred content -, id last) parsed into an output buffer of exactly 170 bytes (needs 177) with arbitrary prior contents: no panic; error below the needed size, success with the right content from it
+//@ outside: output lengths that are not an instance of this family; a symbolic output length (forks every bounds test: > 40 min in the probe); one parse per harness (two exceed 14 GB)
+#[kani::proof]
+#[kani::unwind(8)]
+#[kani::stub(core::panic::Location::caller, stub_caller)]
+fn c03_event_outlen_o2_170() {
+    event_outlen_at(EV_T1_O2, EV_T1_O2_CPOS, 170);
+}
+
+//@ harness: c03_event_outlen_o2_171
+//@ tier: seeded
+//@ group: event_outlen
+//@ timeout: 1500
+//@ mem: 14
+//@ covers: none
+//@ unwindset: read_sig=66; read_id=34; read_pubkey=34; read_hex=66; memcmp.0=34; event_outlen_at=400; event_prefix_at=400; read_u64=22; read_kind=8; burn_string=12; eat_whitespace=6; json_unescape=8
+//@ encodes: Event::from_json, parse_json_event, read_tags_array, read_tag, read_content, read_sig, read_id, read_pubkey, json_unescape, put
+//@ bounds: a valid 365-byte event text (tags [["e","ab"],["p"],[]], content "hi\n" with its first byte arbitrary; member order 2: content before tags - deferred content -, id last) parsed into an output buffer of exactly 171 bytes (needs 177) with arbitrary prior contents: no panic; error below the needed size, success with the right content from it
+//@ outside: output lengths that are not an instance of this family; a symbolic output length (forks every bounds test: > 40 min in the probe); one parse per harness (two exceed 14 GB)
+#[kani::proof]
+#[kani::unwind(8)]
+#[kani::stub(core::panic::Location::caller, stub_caller)]
+fn c03_event_outlen_o2_171() {
+    event_outlen_at(EV_T1_O2, EV_T1_O2_CPOS, 171);
+}
+
+//@ harness: c03_event_outlen_o2_173
+//@ tier: seeded
+//@ group: event_outlen
+//@ timeout: 1500
+//@ mem: 14
+//@ covers: none
+//@ unwindset: read_sig=66; read_id=34; read_pubkey=34; read_hex=66; memcmp.0=34; event_outlen_at=400; event_prefix_at=400; read_u64=22; read_kind=8; burn_string=12; eat_whitespace=6; json_unescape=8
+//@ encodes: Event::from_json, parse_json_event, read_tags_array, read_tag, read_content, read_sig, read_id, read_pubkey, json_unescape, put
+//@ bounds: a valid 365-byte event text (tags [["e","ab"],["p"],[]], content "hi\n" with its first byte arbitrary; member order 2: content before tags - deferred content -, id last) parsed into an output buffer of exactly 173 bytes (needs 177) with arbitrary prior contents: no panic; error below the needed size, success with the right content from it
+//@ outside: output lengths that are not an instance of this family; a symbolic output length (forks every bounds test: > 40 min in the probe); one parse per harness (two exceed 14 GB)
+#[kani::proof]
+#[kani::unwind(8)]
+#[kani::stub(core::panic::Location::caller, stub_caller)]
+fn c03_event_outlen_o2_173() {
+    event_outlen_at(EV_T1_O2, EV_T1_O2_CPOS, 173);
+}
+
+//@ harness: c03_event_outlen_o2_175
+//@ tier: seeded
+//@ group: event_outlen
+//@ timeout: 1500
+//@ mem: 14
+//@ covers: none
+//@ unwindset: read_sig=66; read_id=34; read_pubkey=34; read_hex=66; memcmp.0=34; event_outlen_at=400; event_prefix_at=400; read_u64=22; read_kind=8; burn_string=12; eat_whitespace=6; json_unescape=8
+//@ encodes: Event::from_json, parse_json_event, read_tags_array, read_tag, read_content, read_sig, read_id, read_pubkey, json_unescape, put
+//@ bounds: a valid 365-byte event text (tags [["e","ab"],["p"],[]], content "hi\n" with its first byte arbitrary; member order 2: content before tags - deferred content -, id last) parsed into an output buffer of exactly 175 bytes (needs 177) with arbitrary prior contents: no panic; error below the needed size, success with the right content from it
+//@ outside: output lengths that are not an instance of this family; a symbolic output length (forks every bounds test: > 40 min in the probe); one parse per harness (two exceed 14 GB)
+#[kani::proof]
+#[kani::unwind(8)]
+#[kani::stub(core::panic::Location::caller, stub_caller)]
+fn c03_event_outlen_o2_175() {
+    event_outlen_at(EV_T1_O2, EV_T1_O2_CPOS, 175);
+}
+
+//@ harness: c03_event_outlen_o2_176
+//@ tier: seeded
+//@ group: event_outlen
+//@ timeout: 1500
+//@ mem: 14
+//@ covers: none
+//@ unwindset: read_sig=66; read_id=34; read_pubkey=34; read_hex=66; memcmp.0=34; event_outlen_at=400; event_prefix_at=400; read_u64=22; read_kind=8; burn_string=12; eat_whitespace=6; json_unescape=8
+//@ encodes: Event::from_json, parse_json_event, read_tags_array, read_tag, read_content, read_sig, read_id, read_pubkey, json_unescape, put
+//@ bounds: a valid 365-byte event text (tags [["e","ab"],["p"],[]], content "hi\n" with its first byte arbitrary; member order 2: content before tags - deferred content -, id last) parsed into an output buffer of exactly 176 bytes (needs 177) with arbitrary prior contents: no panic; error below the needed size, success with the right content from it
+//@ outside: output lengths that are not an instance of this family; a symbolic output length (forks every bounds test: > 40 min in the probe); one parse per harness (two exceed 14 GB)
+#[kani::proof]
+#[kani::unwind(8)]
+#[kani::stub(core::panic::Location::caller, stub_caller)]
+fn c03_event_outlen_o2_176() {
+    event_outlen_at(EV_T1_O2, EV_T1_O2_CPOS, 176);
+}
+
+//@ harness: c03_event_outlen_o2_177
 //@ tier: quick
-//@ timeout: 1800
+//@ timeout: 1500
 //@ mem: 14
 //@ covers: none
-//@ unwindset: read_sig=66; read_id=34; read_pubkey=34; read_hex=66; memcmp.0=34
+//@ unwindset: read_sig=66; read_id=34; read_pubkey=34; read_hex=66; memcmp.0=34; event_outlen_at=400; event_prefix_at=400; read_u64=22; read_kind=8; burn_string=12; eat_whitespace=6; json_unescape=8
 //@ encodes: Event::from_json, parse_json_event, read_tags_array, read_tag, read_content, read_sig, read_id, read_pubkey, json_unescape, put
-//@ bounds: a valid 365-byte event text (tags [["e","ab"],["p"],[]], content "hi\n" with its first byte arbitrary; member order 2: content before tags - deferred content -, id last) parsed into the concrete output lengths [152, 173, 176, 177] (needs 177), arbitrary prior buffer contents: no panic; error below the needed size, success with the right content from it
-//@ outside: output lengths not listed in an instance of this family; symbolic output length (forks every bounds test: > 40 min in the probe)
+//@ bounds: a valid 365-byte event text (tags [["e","ab"],["p"],[]], content "hi\n" with its first byte arbitrary; member order 2: content before tags - deferred content -, id last) parsed into an output buffer of exactly 177 bytes (needs 177) with arbitrary prior contents: no panic; error below the needed size, success with the right content from it
+//@ outside: output lengths that are not an instance of this family; a symbolic output length (forks every bounds test: > 40 min in the probe); one parse per harness (two exceed 14 GB)
 #[kani::proof]
-#[kani::unwind(32)]
+#[kani::unwind(8)]
 #[kani::stub(core::panic::Location::caller, stub_caller)]
-fn c03_event_outlen_o2_edge() {
-    let p = EV_T1_O2_CPOS;
-    event_outlen_at(EV_T1_O2, p, 152);
-    event_outlen_at(EV_T1_O2, p, 173);
-    event_outlen_at(EV_T1_O2, p, 176);
-    event_outlen_at(EV_T1_O2, p, 177);
+fn c03_event_outlen_o2_177() {
+    event_outlen_at(EV_T1_O2, EV_T1_O2_CPOS, 177);
 }
 
-//@ harness: c03_event_outlen_o1_tags
+//@ harness: c03_event_outlen_o2_178
 //@ tier: seeded
 //@ group: event_outlen
-//@ timeout: 1800
+//@ timeout: 1500
 //@ mem: 14
 //@ covers: none
-//@ unwindset: read_sig=66; read_id=34; read_pubkey=34; read_hex=66; memcmp.0=34
+//@ unwindset: read_sig=66; read_id=34; read_pubkey=34; read_hex=66; memcmp.0=34; event_outlen_at=400; event_prefix_at=400; read_u64=22; read_kind=8; burn_string=12; eat_whitespace=6; json_unescape=8
 //@ encodes: Event::from_json, parse_json_event, read_tags_array, read_tag, read_content, read_sig, read_id, read_pubkey, json_unescape, put
-//@ bounds: a valid 365-byte event text (tags [["e","ab"],["p"],[]], content "hi\n" with its first byte arbitrary; member order 1: tags before content, sig last) parsed into the concrete output lengths [153, 158, 163, 170] (needs 177), arbitrary prior buffer contents: no panic; error below the needed size, success with the right content from it
-//@ outside: output lengths not listed in an instance of this family; symbolic output length (forks every bounds test: > 40 min in the probe)
+//@ bounds: a valid 365-byte event text (tags [["e","ab"],["p"],[]], content "hi\n" with its first byte arbitrary; member order 2: content before tags - deferred content -, id last) parsed into an output buffer of exactly 178 bytes (needs 177) with arbitrary prior contents: no panic; error below the needed size, success with the right content from it
+//@ outside: output lengths that are not an instance of this family; a symbolic output length (forks every bounds test: > 40 min in the probe); one parse per harness (two exceed 14 GB)
 #[kani::proof]
-#[kani::unwind(32)]
+#[kani::unwind(8)]
 #[kani::stub(core::panic::Location::caller, stub_caller)]
-fn c03_event_outlen_o1_tags() {
-    let p = EV_T1_O1_CPOS;
-    event_outlen_at(EV_T1_O1, p, 153);
-    event_outlen_at(EV_T1_O1, p, 158);
-    event_outlen_at(EV_T1_O1, p, 163);
-    event_outlen_at(EV_T1_O1, p, 170);
-}
-
-//@ harness: c03_event_outlen_o1_tail
-//@ tier: seeded
-//@ group: event_outlen
-//@ timeout: 1800
-//@ mem: 14
-//@ covers: none
-//@ unwindset: read_sig=66; read_id=34; read_pubkey=34; read_hex=66; memcmp.0=34
-//@ encodes: Event::from_json, parse_json_event, read_tags_array, read_tag, read_content, read_sig, read_id, read_pubkey, json_unescape, put
-//@ bounds: a valid 365-byte event text (tags [["e","ab"],["p"],[]], content "hi\n" with its first byte arbitrary; member order 1: tags before content, sig last) parsed into the concrete output lengths [171, 172, 174, 175] (needs 177), arbitrary prior buffer contents: no panic; error below the needed size, success with the right content from it
-//@ outside: output lengths not listed in an instance of this family; symbolic output length (forks every bounds test: > 40 min in the probe)
-#[kani::proof]
-#[kani::unwind(32)]
-#[kani::stub(core::panic::Location::caller, stub_caller)]
-fn c03_event_outlen_o1_tail() {
-    let p = EV_T1_O1_CPOS;
-    event_outlen_at(EV_T1_O1, p, 171);
-    event_outlen_at(EV_T1_O1, p, 172);
-    event_outlen_at(EV_T1_O1, p, 174);
-    event_outlen_at(EV_T1_O1, p, 175);
-}
-
-//@ harness: c03_event_outlen_o2_tags
-//@ tier: seeded
-//@ group: event_outlen
-//@ timeout: 1800
-//@ mem: 14
-//@ covers: none
-//@ unwindset: read_sig=66; read_id=34; read_pubkey=34; read_hex=66; memcmp.0=34
-//@ encodes: Event::from_json, parse_json_event, read_tags_array, read_tag, read_content, read_sig, read_id, read_pubkey, json_unescape, put
-//@ bounds: a valid 365-byte event text (tags [["e","ab"],["p"],[]], content "hi\n" with its first byte arbitrary; member order 2: content before tags - deferred content -, id last) parsed into the concrete output lengths [153, 158, 163, 170] (needs 177), arbitrary prior buffer contents: no panic; error below the needed size, success with the right content from it
-//@ outside: output lengths not listed in an instance of this family; symbolic output length (forks every bounds test: > 40 min in the probe)
-#[kani::proof]
-#[kani::unwind(32)]
-#[kani::stub(core::panic::Location::caller, stub_caller)]
-fn c03_event_outlen_o2_tags() {
-    let p = EV_T1_O2_CPOS;
-    event_outlen_at(EV_T1_O2, p, 153);
-    event_outlen_at(EV_T1_O2, p, 158);
-    event_outlen_at(EV_T1_O2, p, 163);
-    event_outlen_at(EV_T1_O2, p, 170);
-}
-
-//@ harness: c03_event_outlen_o2_tail
-//@ tier: seeded
-//@ group: event_outlen
-//@ timeout: 1800
-//@ mem: 14
-//@ covers: none
-//@ unwindset: read_sig=66; read_id=34; read_pubkey=34; read_hex=66; memcmp.0=34
-//@ encodes: Event::from_json, parse_json_event, read_tags_array, read_tag, read_content, read_sig, read_id, read_pubkey, json_unescape, put
-//@ bounds: a valid 365-byte event text (tags [["e","ab"],["p"],[]], content "hi\n" with its first byte arbitrary; member order 2: content before tags - deferred content -, id last) parsed into the concrete output lengths [171, 172, 174, 175] (needs 177), arbitrary prior buffer contents: no panic; error below the needed size, success with the right content from it
-//@ outside: output lengths not listed in an instance of this family; symbolic output length (forks every bounds test: > 40 min in the probe)
-#[kani::proof]
-#[kani::unwind(32)]
-#[kani::stub(core::panic::Location::caller, stub_caller)]
-fn c03_event_outlen_o2_tail() {
-    let p = EV_T1_O2_CPOS;
-    event_outlen_at(EV_T1_O2, p, 171);
-    event_outlen_at(EV_T1_O2, p, 172);
-    event_outlen_at(EV_T1_O2, p, 174);
-    event_outlen_at(EV_T1_O2, p, 175);
-}
-
-//@ harness: c03_event_outlen_small
-//@ tier: seeded
-//@ group: event_outlen
-//@ timeout: 1800
-//@ mem: 14
-//@ covers: none
-//@ unwindset: read_sig=66; read_id=34; read_pubkey=34; read_hex=66; memcmp.0=34
-//@ encodes: Event::from_json, parse_json_event, read_tags_array, read_tag, read_content, read_sig, read_id, read_pubkey, json_unescape, put
-//@ bounds: a valid 365-byte event text (tags [["e","ab"],["p"],[]], content "hi\n" with its first byte arbitrary; member order 1: tags before content, sig last) parsed into the concrete output lengths [0, 1, 143, 144] (needs 177), arbitrary prior buffer contents: no panic; error below the needed size, success with the right content from it
-//@ outside: output lengths not listed in an instance of this family; symbolic output length (forks every bounds test: > 40 min in the probe)
-#[kani::proof]
-#[kani::unwind(32)]
-#[kani::stub(core::panic::Location::caller, stub_caller)]
-fn c03_event_outlen_small() {
-    let p = EV_T1_O1_CPOS;
-    event_outlen_at(EV_T1_O1, p, 0);
-    event_outlen_at(EV_T1_O1, p, 1);
-    event_outlen_at(EV_T1_O1, p, 143);
-    event_outlen_at(EV_T1_O1, p, 144);
+fn c03_event_outlen_o2_178() {
+    event_outlen_at(EV_T1_O2, EV_T1_O2_CPOS, 178);
 }
 
 /// the valid event text cut at concrete lengths, last byte of each prefix arbitrary
 fn event_prefix_at(text: &[u8; 365], n: usize) {
     let mut buf = [0u8; 365];
-    buf[..n].copy_from_slice(&text[..n]);
+    copy_text!(buf, text);
     buf[n - 1] = kani::any();
     let mut out = [0u8; 192];
     let r = Event::from_json(&buf[..n], &mut out);
@@ -683,265 +1025,885 @@ fn event_prefix_at(text: &[u8; 365], n: usize) {
     }
 }
 
-//@ harness: c03_event_prefix_o1_a
-//@ tier: quick
-//@ timeout: 1800
+//@ harness: c03_event_prefix_o1_204
+//@ tier: seeded
+//@ group: event_prefix
+//@ timeout: 1500
 //@ mem: 14
 //@ covers: none
-//@ unwindset: read_sig=66; read_id=34; read_pubkey=34; read_hex=66; memcmp.0=34
+//@ unwindset: read_sig=66; read_id=34; read_pubkey=34; read_hex=66; memcmp.0=34; event_outlen_at=400; event_prefix_at=400; read_u64=22; read_kind=8; burn_string=12; eat_whitespace=6; json_unescape=8
 //@ encodes: Event::from_json, parse_json_event and every reader it calls
-//@ bounds: the valid 365-byte event text (order 1) cut at the concrete lengths [204, 365], the last byte of each prefix arbitrary: no panic, consumed <= length
-//@ outside: prefix lengths not listed in an instance of this family (inputs shorter than 204 bytes are rejected up front)
+//@ bounds: the valid 365-byte event text (order 1) cut after 204 bytes, the last byte of the prefix arbitrary (truncation and single-byte corruption at the cut): no panic, consumed <= length
+//@ outside: prefix lengths that are not an instance of this family (inputs shorter than 204 bytes are rejected up front)
 #[kani::proof]
-#[kani::unwind(32)]
+#[kani::unwind(8)]
 #[kani::stub(core::panic::Location::caller, stub_caller)]
-fn c03_event_prefix_o1_a() {
+fn c03_event_prefix_o1_204() {
     event_prefix_at(EV_T1_O1, 204);
+}
+
+//@ harness: c03_event_prefix_o1_205
+//@ tier: seeded
+//@ group: event_prefix
+//@ timeout: 1500
+//@ mem: 14
+//@ covers: none
+//@ unwindset: read_sig=66; read_id=34; read_pubkey=34; read_hex=66; memcmp.0=34; event_outlen_at=400; event_prefix_at=400; read_u64=22; read_kind=8; burn_string=12; eat_whitespace=6; json_unescape=8
+//@ encodes: Event::from_json, parse_json_event and every reader it calls
+//@ bounds: the valid 365-byte event text (order 1) cut after 205 bytes, the last byte of the prefix arbitrary (truncation and single-byte corruption at the cut): no panic, consumed <= length
+//@ outside: prefix lengths that are not an instance of this family (inputs shorter than 204 bytes are rejected up front)
+#[kani::proof]
+#[kani::unwind(8)]
+#[kani::stub(core::panic::Location::caller, stub_caller)]
+fn c03_event_prefix_o1_205() {
+    event_prefix_at(EV_T1_O1, 205);
+}
+
+//@ harness: c03_event_prefix_o1_210
+//@ tier: seeded
+//@ group: event_prefix
+//@ timeout: 1500
+//@ mem: 14
+//@ covers: none
+//@ unwindset: read_sig=66; read_id=34; read_pubkey=34; read_hex=66; memcmp.0=34; event_outlen_at=400; event_prefix_at=400; read_u64=22; read_kind=8; burn_string=12; eat_whitespace=6; json_unescape=8
+//@ encodes: Event::from_json, parse_json_event and every reader it calls
+//@ bounds: the valid 365-byte event text (order 1) cut after 210 bytes, the last byte of the prefix arbitrary (truncation and single-byte corruption at the cut): no panic, consumed <= length
+//@ outside: prefix lengths that are not an instance of this family (inputs shorter than 204 bytes are rejected up front)
+#[kani::proof]
+#[kani::unwind(8)]
+#[kani::stub(core::panic::Location::caller, stub_caller)]
+fn c03_event_prefix_o1_210() {
+    event_prefix_at(EV_T1_O1, 210);
+}
+
+//@ harness: c03_event_prefix_o1_222
+//@ tier: seeded
+//@ group: event_prefix
+//@ timeout: 1500
+//@ mem: 14
+//@ covers: none
+//@ unwindset: read_sig=66; read_id=34; read_pubkey=34; read_hex=66; memcmp.0=34; event_outlen_at=400; event_prefix_at=400; read_u64=22; read_kind=8; burn_string=12; eat_whitespace=6; json_unescape=8
+//@ encodes: Event::from_json, parse_json_event and every reader it calls
+//@ bounds: the valid 365-byte event text (order 1) cut after 222 bytes, the last byte of the prefix arbitrary (truncation and single-byte corruption at the cut): no panic, consumed <= length
+//@ outside: prefix lengths that are not an instance of this family (inputs shorter than 204 bytes are rejected up front)
+#[kani::proof]
+#[kani::unwind(8)]
+#[kani::stub(core::panic::Location::caller, stub_caller)]
+fn c03_event_prefix_o1_222() {
+    event_prefix_at(EV_T1_O1, 222);
+}
+
+//@ harness: c03_event_prefix_o1_226
+//@ tier: seeded
+//@ group: event_prefix
+//@ timeout: 1500
+//@ mem: 14
+//@ covers: none
+//@ unwindset: read_sig=66; read_id=34; read_pubkey=34; read_hex=66; memcmp.0=34; event_outlen_at=400; event_prefix_at=400; read_u64=22; read_kind=8; burn_string=12; eat_whitespace=6; json_unescape=8
+//@ encodes: Event::from_json, parse_json_event and every reader it calls
+//@ bounds: the valid 365-byte event text (order 1) cut after 226 bytes, the last byte of the prefix arbitrary (truncation and single-byte corruption at the cut): no panic, consumed <= length
+//@ outside: prefix lengths that are not an instance of this family (inputs shorter than 204 bytes are rejected up front)
+#[kani::proof]
+#[kani::unwind(8)]
+#[kani::stub(core::panic::Location::caller, stub_caller)]
+fn c03_event_prefix_o1_226() {
+    event_prefix_at(EV_T1_O1, 226);
+}
+
+//@ harness: c03_event_prefix_o1_230
+//@ tier: seeded
+//@ group: event_prefix
+//@ timeout: 1500
+//@ mem: 14
+//@ covers: none
+//@ unwindset: read_sig=66; read_id=34; read_pubkey=34; read_hex=66; memcmp.0=34; event_outlen_at=400; event_prefix_at=400; read_u64=22; read_kind=8; burn_string=12; eat_whitespace=6; json_unescape=8
+//@ encodes: Event::from_json, parse_json_event and every reader it calls
+//@ bounds: the valid 365-byte event text (order 1) cut after 230 bytes, the last byte of the prefix arbitrary (truncation and single-byte corruption at the cut): no panic, consumed <= length
+//@ outside: prefix lengths that are not an instance of this family (inputs shorter than 204 bytes are rejected up front)
+#[kani::proof]
+#[kani::unwind(8)]
+#[kani::stub(core::panic::Location::caller, stub_caller)]
+fn c03_event_prefix_o1_230() {
+    event_prefix_at(EV_T1_O1, 230);
+}
+
+//@ harness: c03_event_prefix_o1_253
+//@ tier: seeded
+//@ group: event_prefix
+//@ timeout: 1500
+//@ mem: 14
+//@ covers: none
+//@ unwindset: read_sig=66; read_id=34; read_pubkey=34; read_hex=66; memcmp.0=34; event_outlen_at=400; event_prefix_at=400; read_u64=22; read_kind=8; burn_string=12; eat_whitespace=6; json_unescape=8
+//@ encodes: Event::from_json, parse_json_event and every reader it calls
+//@ bounds: the valid 365-byte event text (order 1) cut after 253 bytes, the last byte of the prefix arbitrary (truncation and single-byte corruption at the cut): no panic, consumed <= length
+//@ outside: prefix lengths that are not an instance of this family (inputs shorter than 204 bytes are rejected up front)
+#[kani::proof]
+#[kani::unwind(8)]
+#[kani::stub(core::panic::Location::caller, stub_caller)]
+fn c03_event_prefix_o1_253() {
+    event_prefix_at(EV_T1_O1, 253);
+}
+
+//@ harness: c03_event_prefix_o1_254
+//@ tier: seeded
+//@ group: event_prefix
+//@ timeout: 1500
+//@ mem: 14
+//@ covers: none
+//@ unwindset: read_sig=66; read_id=34; read_pubkey=34; read_hex=66; memcmp.0=34; event_outlen_at=400; event_prefix_at=400; read_u64=22; read_kind=8; burn_string=12; eat_whitespace=6; json_unescape=8
+//@ encodes: Event::from_json, parse_json_event and every reader it calls
+//@ bounds: the valid 365-byte event text (order 1) cut after 254 bytes, the last byte of the prefix arbitrary (truncation and single-byte corruption at the cut): no panic, consumed <= length
+//@ outside: prefix lengths that are not an instance of this family (inputs shorter than 204 bytes are rejected up front)
+#[kani::proof]
+#[kani::unwind(8)]
+#[kani::stub(core::panic::Location::caller, stub_caller)]
+fn c03_event_prefix_o1_254() {
+    event_prefix_at(EV_T1_O1, 254);
+}
+
+//@ harness: c03_event_prefix_o1_260
+//@ tier: seeded
+//@ group: event_prefix
+//@ timeout: 1500
+//@ mem: 14
+//@ covers: none
+//@ unwindset: read_sig=66; read_id=34; read_pubkey=34; read_hex=66; memcmp.0=34; event_outlen_at=400; event_prefix_at=400; read_u64=22; read_kind=8; burn_string=12; eat_whitespace=6; json_unescape=8
+//@ encodes: Event::from_json, parse_json_event and every reader it calls
+//@ bounds: the valid 365-byte event text (order 1) cut after 260 bytes, the last byte of the prefix arbitrary (truncation and single-byte corruption at the cut): no panic, consumed <= length
+//@ outside: prefix lengths that are not an instance of this family (inputs shorter than 204 bytes are rejected up front)
+#[kani::proof]
+#[kani::unwind(8)]
+#[kani::stub(core::panic::Location::caller, stub_caller)]
+fn c03_event_prefix_o1_260() {
+    event_prefix_at(EV_T1_O1, 260);
+}
+
+//@ harness: c03_event_prefix_o1_300
+//@ tier: seeded
+//@ group: event_prefix
+//@ timeout: 1500
+//@ mem: 14
+//@ covers: none
+//@ unwindset: read_sig=66; read_id=34; read_pubkey=34; read_hex=66; memcmp.0=34; event_outlen_at=400; event_prefix_at=400; read_u64=22; read_kind=8; burn_string=12; eat_whitespace=6; json_unescape=8
+//@ encodes: Event::from_json, parse_json_event and every reader it calls
+//@ bounds: the valid 365-byte event text (order 1) cut after 300 bytes, the last byte of the prefix arbitrary (truncation and single-byte corruption at the cut): no panic, consumed <= length
+//@ outside: prefix lengths that are not an instance of this family (inputs shorter than 204 bytes are rejected up front)
+#[kani::proof]
+#[kani::unwind(8)]
+#[kani::stub(core::panic::Location::caller, stub_caller)]
+fn c03_event_prefix_o1_300() {
+    event_prefix_at(EV_T1_O1, 300);
+}
+
+//@ harness: c03_event_prefix_o1_321
+//@ tier: seeded
+//@ group: event_prefix
+//@ timeout: 1500
+//@ mem: 14
+//@ covers: none
+//@ unwindset: read_sig=66; read_id=34; read_pubkey=34; read_hex=66; memcmp.0=34; event_outlen_at=400; event_prefix_at=400; read_u64=22; read_kind=8; burn_string=12; eat_whitespace=6; json_unescape=8
+//@ encodes: Event::from_json, parse_json_event and every reader it calls
+//@ bounds: the valid 365-byte event text (order 1) cut after 321 bytes, the last byte of the prefix arbitrary (truncation and single-byte corruption at the cut): no panic, consumed <= length
+//@ outside: prefix lengths that are not an instance of this family (inputs shorter than 204 bytes are rejected up front)
+#[kani::proof]
+#[kani::unwind(8)]
+#[kani::stub(core::panic::Location::caller, stub_caller)]
+fn c03_event_prefix_o1_321() {
+    event_prefix_at(EV_T1_O1, 321);
+}
+
+//@ harness: c03_event_prefix_o1_325
+//@ tier: seeded
+//@ group: event_prefix
+//@ timeout: 1500
+//@ mem: 14
+//@ covers: none
+//@ unwindset: read_sig=66; read_id=34; read_pubkey=34; read_hex=66; memcmp.0=34; event_outlen_at=400; event_prefix_at=400; read_u64=22; read_kind=8; burn_string=12; eat_whitespace=6; json_unescape=8
+//@ encodes: Event::from_json, parse_json_event and every reader it calls
+//@ bounds: the valid 365-byte event text (order 1) cut after 325 bytes, the last byte of the prefix arbitrary (truncation and single-byte corruption at the cut): no panic, consumed <= length
+//@ outside: prefix lengths that are not an instance of this family (inputs shorter than 204 bytes are rejected up front)
+#[kani::proof]
+#[kani::unwind(8)]
+#[kani::stub(core::panic::Location::caller, stub_caller)]
+fn c03_event_prefix_o1_325() {
+    event_prefix_at(EV_T1_O1, 325);
+}
+
+//@ harness: c03_event_prefix_o1_330
+//@ tier: seeded
+//@ group: event_prefix
+//@ timeout: 1500
+//@ mem: 14
+//@ covers: none
+//@ unwindset: read_sig=66; read_id=34; read_pubkey=34; read_hex=66; memcmp.0=34; event_outlen_at=400; event_prefix_at=400; read_u64=22; read_kind=8; burn_string=12; eat_whitespace=6; json_unescape=8
+//@ encodes: Event::from_json, parse_json_event and every reader it calls
+//@ bounds: the valid 365-byte event text (order 1) cut after 330 bytes, the last byte of the prefix arbitrary (truncation and single-byte corruption at the cut): no panic, consumed <= length
+//@ outside: prefix lengths that are not an instance of this family (inputs shorter than 204 bytes are rejected up front)
+#[kani::proof]
+#[kani::unwind(8)]
+#[kani::stub(core::panic::Location::caller, stub_caller)]
+fn c03_event_prefix_o1_330() {
+    event_prefix_at(EV_T1_O1, 330);
+}
+
+//@ harness: c03_event_prefix_o1_336
+//@ tier: seeded
+//@ group: event_prefix
+//@ timeout: 1500
+//@ mem: 14
+//@ covers: none
+//@ unwindset: read_sig=66; read_id=34; read_pubkey=34; read_hex=66; memcmp.0=34; event_outlen_at=400; event_prefix_at=400; read_u64=22; read_kind=8; burn_string=12; eat_whitespace=6; json_unescape=8
+//@ encodes: Event::from_json, parse_json_event and every reader it calls
+//@ bounds: the valid 365-byte event text (order 1) cut after 336 bytes, the last byte of the prefix arbitrary (truncation and single-byte corruption at the cut): no panic, consumed <= length
+//@ outside: prefix lengths that are not an instance of this family (inputs shorter than 204 bytes are rejected up front)
+#[kani::proof]
+#[kani::unwind(8)]
+#[kani::stub(core::panic::Location::caller, stub_caller)]
+fn c03_event_prefix_o1_336() {
+    event_prefix_at(EV_T1_O1, 336);
+}
+
+//@ harness: c03_event_prefix_o1_337
+//@ tier: seeded
+//@ group: event_prefix
+//@ timeout: 1500
+//@ mem: 14
+//@ covers: none
+//@ unwindset: read_sig=66; read_id=34; read_pubkey=34; read_hex=66; memcmp.0=34; event_outlen_at=400; event_prefix_at=400; read_u64=22; read_kind=8; burn_string=12; eat_whitespace=6; json_unescape=8
+//@ encodes: Event::from_json, parse_json_event and every reader it calls
+//@ bounds: the valid 365-byte event text (order 1) cut after 337 bytes, the last byte of the prefix arbitrary (truncation and single-byte corruption at the cut): no panic, consumed <= length
+//@ outside: prefix lengths that are not an instance of this family (inputs shorter than 204 bytes are rejected up front)
+#[kani::proof]
+#[kani::unwind(8)]
+#[kani::stub(core::panic::Location::caller, stub_caller)]
+fn c03_event_prefix_o1_337() {
+    event_prefix_at(EV_T1_O1, 337);
+}
+
+//@ harness: c03_event_prefix_o1_340
+//@ tier: seeded
+//@ group: event_prefix
+//@ timeout: 1500
+//@ mem: 14
+//@ covers: none
+//@ unwindset: read_sig=66; read_id=34; read_pubkey=34; read_hex=66; memcmp.0=34; event_outlen_at=400; event_prefix_at=400; read_u64=22; read_kind=8; burn_string=12; eat_whitespace=6; json_unescape=8
+//@ encodes: Event::from_json, parse_json_event and every reader it calls
+//@ bounds: the valid 365-byte event text (order 1) cut after 340 bytes, the last byte of the prefix arbitrary (truncation and single-byte corruption at the cut): no panic, consumed <= length
+//@ outside: prefix lengths that are not an instance of this family (inputs shorter than 204 bytes are rejected up front)
+#[kani::proof]
+#[kani::unwind(8)]
+#[kani::stub(core::panic::Location::caller, stub_caller)]
+fn c03_event_prefix_o1_340() {
+    event_prefix_at(EV_T1_O1, 340);
+}
+
+//@ harness: c03_event_prefix_o1_345
+//@ tier: seeded
+//@ group: event_prefix
+//@ timeout: 1500
+//@ mem: 14
+//@ covers: none
+//@ unwindset: read_sig=66; read_id=34; read_pubkey=34; read_hex=66; memcmp.0=34; event_outlen_at=400; event_prefix_at=400; read_u64=22; read_kind=8; burn_string=12; eat_whitespace=6; json_unescape=8
+//@ encodes: Event::from_json, parse_json_event and every reader it calls
+//@ bounds: the valid 365-byte event text (order 1) cut after 345 bytes, the last byte of the prefix arbitrary (truncation and single-byte corruption at the cut): no panic, consumed <= length
+//@ outside: prefix lengths that are not an instance of this family (inputs shorter than 204 bytes are rejected up front)
+#[kani::proof]
+#[kani::unwind(8)]
+#[kani::stub(core::panic::Location::caller, stub_caller)]
+fn c03_event_prefix_o1_345() {
+    event_prefix_at(EV_T1_O1, 345);
+}
+
+//@ harness: c03_event_prefix_o1_349
+//@ tier: seeded
+//@ group: event_prefix
+//@ timeout: 1500
+//@ mem: 14
+//@ covers: none
+//@ unwindset: read_sig=66; read_id=34; read_pubkey=34; read_hex=66; memcmp.0=34; event_outlen_at=400; event_prefix_at=400; read_u64=22; read_kind=8; burn_string=12; eat_whitespace=6; json_unescape=8
+//@ encodes: Event::from_json, parse_json_event and every reader it calls
+//@ bounds: the valid 365-byte event text (order 1) cut after 349 bytes, the last byte of the prefix arbitrary (truncation and single-byte corruption at the cut): no panic, consumed <= length
+//@ outside: prefix lengths that are not an instance of this family (inputs shorter than 204 bytes are rejected up front)
+#[kani::proof]
+#[kani::unwind(8)]
+#[kani::stub(core::panic::Location::caller, stub_caller)]
+fn c03_event_prefix_o1_349() {
+    event_prefix_at(EV_T1_O1, 349);
+}
+
+//@ harness: c03_event_prefix_o1_350
+//@ tier: seeded
+//@ group: event_prefix
+//@ timeout: 1500
+//@ mem: 14
+//@ covers: none
+//@ unwindset: read_sig=66; read_id=34; read_pubkey=34; read_hex=66; memcmp.0=34; event_outlen_at=400; event_prefix_at=400; read_u64=22; read_kind=8; burn_string=12; eat_whitespace=6; json_unescape=8
+//@ encodes: Event::from_json, parse_json_event and every reader it calls
+//@ bounds: the valid 365-byte event text (order 1) cut after 350 bytes, the last byte of the prefix arbitrary (truncation and single-byte corruption at the cut): no panic, consumed <= length
+//@ outside: prefix lengths that are not an instance of this family (inputs shorter than 204 bytes are rejected up front)
+#[kani::proof]
+#[kani::unwind(8)]
+#[kani::stub(core::panic::Location::caller, stub_caller)]
+fn c03_event_prefix_o1_350() {
+    event_prefix_at(EV_T1_O1, 350);
+}
+
+//@ harness: c03_event_prefix_o1_355
+//@ tier: seeded
+//@ group: event_prefix
+//@ timeout: 1500
+//@ mem: 14
+//@ covers: none
+//@ unwindset: read_sig=66; read_id=34; read_pubkey=34; read_hex=66; memcmp.0=34; event_outlen_at=400; event_prefix_at=400; read_u64=22; read_kind=8; burn_string=12; eat_whitespace=6; json_unescape=8
+//@ encodes: Event::from_json, parse_json_event and every reader it calls
+//@ bounds: the valid 365-byte event text (order 1) cut after 355 bytes, the last byte of the prefix arbitrary (truncation and single-byte corruption at the cut): no panic, consumed <= length
+//@ outside: prefix lengths that are not an instance of this family (inputs shorter than 204 bytes are rejected up front)
+#[kani::proof]
+#[kani::unwind(8)]
+#[kani::stub(core::panic::Location::caller, stub_caller)]
+fn c03_event_prefix_o1_355() {
+    event_prefix_at(EV_T1_O1, 355);
+}
+
+//@ harness: c03_event_prefix_o1_356
+//@ tier: seeded
+//@ group: event_prefix
+//@ timeout: 1500
+//@ mem: 14
+//@ covers: none
+//@ unwindset: read_sig=66; read_id=34; read_pubkey=34; read_hex=66; memcmp.0=34; event_outlen_at=400; event_prefix_at=400; read_u64=22; read_kind=8; burn_string=12; eat_whitespace=6; json_unescape=8
+//@ encodes: Event::from_json, parse_json_event and every reader it calls
+//@ bounds: the valid 365-byte event text (order 1) cut after 356 bytes, the last byte of the prefix arbitrary (truncation and single-byte corruption at the cut): no panic, consumed <= length
+//@ outside: prefix lengths that are not an instance of this family (inputs shorter than 204 bytes are rejected up front)
+#[kani::proof]
+#[kani::unwind(8)]
+#[kani::stub(core::panic::Location::caller, stub_caller)]
+fn c03_event_prefix_o1_356() {
+    event_prefix_at(EV_T1_O1, 356);
+}
+
+//@ harness: c03_event_prefix_o1_360
+//@ tier: seeded
+//@ group: event_prefix
+//@ timeout: 1500
+//@ mem: 14
+//@ covers: none
+//@ unwindset: read_sig=66; read_id=34; read_pubkey=34; read_hex=66; memcmp.0=34; event_outlen_at=400; event_prefix_at=400; read_u64=22; read_kind=8; burn_string=12; eat_whitespace=6; json_unescape=8
+//@ encodes: Event::from_json, parse_json_event and every reader it calls
+//@ bounds: the valid 365-byte event text (order 1) cut after 360 bytes, the last byte of the prefix arbitrary (truncation and single-byte corruption at the cut): no panic, consumed <= length
+//@ outside: prefix lengths that are not an instance of this family (inputs shorter than 204 bytes are rejected up front)
+#[kani::proof]
+#[kani::unwind(8)]
+#[kani::stub(core::panic::Location::caller, stub_caller)]
+fn c03_event_prefix_o1_360() {
+    event_prefix_at(EV_T1_O1, 360);
+}
+
+//@ harness: c03_event_prefix_o1_362
+//@ tier: seeded
+//@ group: event_prefix
+//@ timeout: 1500
+//@ mem: 14
+//@ covers: none
+//@ unwindset: read_sig=66; read_id=34; read_pubkey=34; read_hex=66; memcmp.0=34; event_outlen_at=400; event_prefix_at=400; read_u64=22; read_kind=8; burn_string=12; eat_whitespace=6; json_unescape=8
+//@ encodes: Event::from_json, parse_json_event and every reader it calls
+//@ bounds: the valid 365-byte event text (order 1) cut after 362 bytes, the last byte of the prefix arbitrary (truncation and single-byte corruption at the cut): no panic, consumed <= length
+//@ outside: prefix lengths that are not an instance of this family (inputs shorter than 204 bytes are rejected up front)
+#[kani::proof]
+#[kani::unwind(8)]
+#[kani::stub(core::panic::Location::caller, stub_caller)]
+fn c03_event_prefix_o1_362() {
+    event_prefix_at(EV_T1_O1, 362);
+}
+
+//@ harness: c03_event_prefix_o1_363
+//@ tier: seeded
+//@ group: event_prefix
+//@ timeout: 1500
+//@ mem: 14
+//@ covers: none
+//@ unwindset: read_sig=66; read_id=34; read_pubkey=34; read_hex=66; memcmp.0=34; event_outlen_at=400; event_prefix_at=400; read_u64=22; read_kind=8; burn_string=12; eat_whitespace=6; json_unescape=8
+//@ encodes: Event::from_json, parse_json_event and every reader it calls
+//@ bounds: the valid 365-byte event text (order 1) cut after 363 bytes, the last byte of the prefix arbitrary (truncation and single-byte corruption at the cut): no panic, consumed <= length
+//@ outside: prefix lengths that are not an instance of this family (inputs shorter than 204 bytes are rejected up front)
+#[kani::proof]
+#[kani::unwind(8)]
+#[kani::stub(core::panic::Location::caller, stub_caller)]
+fn c03_event_prefix_o1_363() {
+    event_prefix_at(EV_T1_O1, 363);
+}
+
+//@ harness: c03_event_prefix_o1_364
+//@ tier: quick
+//@ timeout: 1500
+//@ mem: 14
+//@ covers: none
+//@ unwindset: read_sig=66; read_id=34; read_pubkey=34; read_hex=66; memcmp.0=34; event_outlen_at=400; event_prefix_at=400; read_u64=22; read_kind=8; burn_string=12; eat_whitespace=6; json_unescape=8
+//@ encodes: Event::from_json, parse_json_event and every reader it calls
+//@ bounds: the valid 365-byte event text (order 1) cut after 364 bytes, the last byte of the prefix arbitrary (truncation and single-byte corruption at the cut): no panic, consumed <= length
+//@ outside: prefix lengths that are not an instance of this family (inputs shorter than 204 bytes are rejected up front)
+#[kani::proof]
+#[kani::unwind(8)]
+#[kani::stub(core::panic::Location::caller, stub_caller)]
+fn c03_event_prefix_o1_364() {
+    event_prefix_at(EV_T1_O1, 364);
+}
+
+//@ harness: c03_event_prefix_o1_365
+//@ tier: seeded
+//@ group: event_prefix
+//@ timeout: 1500
+//@ mem: 14
+//@ covers: none
+//@ unwindset: read_sig=66; read_id=34; read_pubkey=34; read_hex=66; memcmp.0=34; event_outlen_at=400; event_prefix_at=400; read_u64=22; read_kind=8; burn_string=12; eat_whitespace=6; json_unescape=8
+//@ encodes: Event::from_json, parse_json_event and every reader it calls
+//@ bounds: the valid 365-byte event text (order 1) cut after 365 bytes, the last byte of the prefix arbitrary (truncation and single-byte corruption at the cut): no panic, consumed <= length
+//@ outside: prefix lengths that are not an instance of this family (inputs shorter than 204 bytes are rejected up front)
+#[kani::proof]
+#[kani::unwind(8)]
+#[kani::stub(core::panic::Location::caller, stub_caller)]
+fn c03_event_prefix_o1_365() {
     event_prefix_at(EV_T1_O1, 365);
 }
 
-//@ harness: c03_event_prefix_o2_a
-//@ tier: quick
-//@ timeout: 1800
+//@ harness: c03_event_prefix_o2_204
+//@ tier: seeded
+//@ group: event_prefix
+//@ timeout: 1500
 //@ mem: 14
 //@ covers: none
-//@ unwindset: read_sig=66; read_id=34; read_pubkey=34; read_hex=66; memcmp.0=34
+//@ unwindset: read_sig=66; read_id=34; read_pubkey=34; read_hex=66; memcmp.0=34; event_outlen_at=400; event_prefix_at=400; read_u64=22; read_kind=8; burn_string=12; eat_whitespace=6; json_unescape=8
 //@ encodes: Event::from_json, parse_json_event and every reader it calls
-//@ bounds: the valid 365-byte event text (order 2: content before tags) cut at the concrete lengths [204, 365], the last byte of each prefix arbitrary: no panic, consumed <= length
-//@ outside: prefix lengths not listed in an instance of this family (inputs shorter than 204 bytes are rejected up front)
+//@ bounds: the valid 365-byte event text (order 2: content before tags) cut after 204 bytes, the last byte of the prefix arbitrary (truncation and single-byte corruption at the cut): no panic, consumed <= length
+//@ outside: prefix lengths that are not an instance of this family (inputs shorter than 204 bytes are rejected up front)
 #[kani::proof]
-#[kani::unwind(32)]
+#[kani::unwind(8)]
 #[kani::stub(core::panic::Location::caller, stub_caller)]
-fn c03_event_prefix_o2_a() {
+fn c03_event_prefix_o2_204() {
     event_prefix_at(EV_T1_O2, 204);
-    event_prefix_at(EV_T1_O2, 365);
 }
 
-//@ harness: c03_event_prefix_o1_s0
+//@ harness: c03_event_prefix_o2_205
 //@ tier: seeded
 //@ group: event_prefix
-//@ timeout: 1800
+//@ timeout: 1500
 //@ mem: 14
 //@ covers: none
-//@ unwindset: read_sig=66; read_id=34; read_pubkey=34; read_hex=66; memcmp.0=34
+//@ unwindset: read_sig=66; read_id=34; read_pubkey=34; read_hex=66; memcmp.0=34; event_outlen_at=400; event_prefix_at=400; read_u64=22; read_kind=8; burn_string=12; eat_whitespace=6; json_unescape=8
 //@ encodes: Event::from_json, parse_json_event and every reader it calls
-//@ bounds: the valid 365-byte event text (order 1) cut at the concrete lengths [243, 287, 306], the last byte of each prefix arbitrary: no panic, consumed <= length
-//@ outside: prefix lengths not listed in an instance of this family (inputs shorter than 204 bytes are rejected up front)
+//@ bounds: the valid 365-byte event text (order 2: content before tags) cut after 205 bytes, the last byte of the prefix arbitrary (truncation and single-byte corruption at the cut): no panic, consumed <= length
+//@ outside: prefix lengths that are not an instance of this family (inputs shorter than 204 bytes are rejected up front)
 #[kani::proof]
-#[kani::unwind(32)]
+#[kani::unwind(8)]
 #[kani::stub(core::panic::Location::caller, stub_caller)]
-fn c03_event_prefix_o1_s0() {
-    event_prefix_at(EV_T1_O1, 243);
-    event_prefix_at(EV_T1_O1, 287);
-    event_prefix_at(EV_T1_O1, 306);
+fn c03_event_prefix_o2_205() {
+    event_prefix_at(EV_T1_O2, 205);
 }
 
-//@ harness: c03_event_prefix_o2_s0
+//@ harness: c03_event_prefix_o2_210
 //@ tier: seeded
 //@ group: event_prefix
-//@ timeout: 1800
+//@ timeout: 1500
 //@ mem: 14
 //@ covers: none
-//@ unwindset: read_sig=66; read_id=34; read_pubkey=34; read_hex=66; memcmp.0=34
+//@ unwindset: read_sig=66; read_id=34; read_pubkey=34; read_hex=66; memcmp.0=34; event_outlen_at=400; event_prefix_at=400; read_u64=22; read_kind=8; burn_string=12; eat_whitespace=6; json_unescape=8
 //@ encodes: Event::from_json, parse_json_event and every reader it calls
-//@ bounds: the valid 365-byte event text (order 2: content before tags) cut at the concrete lengths [217, 223, 342], the last byte of each prefix arbitrary: no panic, consumed <= length
-//@ outside: prefix lengths not listed in an instance of this family (inputs shorter than 204 bytes are rejected up front)
+//@ bounds: the valid 365-byte event text (order 2: content before tags) cut after 210 bytes, the last byte of the prefix arbitrary (truncation and single-byte corruption at the cut): no panic, consumed <= length
+//@ outside: prefix lengths that are not an instance of this family (inputs shorter than 204 bytes are rejected up front)
 #[kani::proof]
-#[kani::unwind(32)]
+#[kani::unwind(8)]
 #[kani::stub(core::panic::Location::caller, stub_caller)]
-fn c03_event_prefix_o2_s0() {
-    event_prefix_at(EV_T1_O2, 217);
-    event_prefix_at(EV_T1_O2, 223);
-    event_prefix_at(EV_T1_O2, 342);
+fn c03_event_prefix_o2_210() {
+    event_prefix_at(EV_T1_O2, 210);
 }
 
-//@ harness: c03_event_prefix_o1_s1
+//@ harness: c03_event_prefix_o2_222
 //@ tier: seeded
 //@ group: event_prefix
-//@ timeout: 1800
+//@ timeout: 1500
 //@ mem: 14
 //@ covers: none
-//@ unwindset: read_sig=66; read_id=34; read_pubkey=34; read_hex=66; memcmp.0=34
+//@ unwindset: read_sig=66; read_id=34; read_pubkey=34; read_hex=66; memcmp.0=34; event_outlen_at=400; event_prefix_at=400; read_u64=22; read_kind=8; burn_string=12; eat_whitespace=6; json_unescape=8
 //@ encodes: Event::from_json, parse_json_event and every reader it calls
-//@ bounds: the valid 365-byte event text (order 1) cut at the concrete lengths [229, 298, 354], the last byte of each prefix arbitrary: no panic, consumed <= length
-//@ outside: prefix lengths not listed in an instance of this family (inputs shorter than 204 bytes are rejected up front)
+//@ bounds: the valid 365-byte event text (order 2: content before tags) cut after 222 bytes, the last byte of the prefix arbitrary (truncation and single-byte corruption at the cut): no panic, consumed <= length
+//@ outside: prefix lengths that are not an instance of this family (inputs shorter than 204 bytes are rejected up front)
 #[kani::proof]
-#[kani::unwind(32)]
+#[kani::unwind(8)]
 #[kani::stub(core::panic::Location::caller, stub_caller)]
-fn c03_event_prefix_o1_s1() {
-    event_prefix_at(EV_T1_O1, 229);
-    event_prefix_at(EV_T1_O1, 298);
-    event_prefix_at(EV_T1_O1, 354);
-}
-
-//@ harness: c03_event_prefix_o2_s1
-//@ tier: seeded
-//@ group: event_prefix
-//@ timeout: 1800
-//@ mem: 14
-//@ covers: none
-//@ unwindset: read_sig=66; read_id=34; read_pubkey=34; read_hex=66; memcmp.0=34
-//@ encodes: Event::from_json, parse_json_event and every reader it calls
-//@ bounds: the valid 365-byte event text (order 2: content before tags) cut at the concrete lengths [219, 259, 334], the last byte of each prefix arbitrary: no panic, consumed <= length
-//@ outside: prefix lengths not listed in an instance of this family (inputs shorter than 204 bytes are rejected up front)
-#[kani::proof]
-#[kani::unwind(32)]
-#[kani::stub(core::panic::Location::caller, stub_caller)]
-fn c03_event_prefix_o2_s1() {
-    event_prefix_at(EV_T1_O2, 219);
-    event_prefix_at(EV_T1_O2, 259);
-    event_prefix_at(EV_T1_O2, 334);
-}
-
-//@ harness: c03_event_prefix_o1_s2
-//@ tier: seeded
-//@ group: event_prefix
-//@ timeout: 1800
-//@ mem: 14
-//@ covers: none
-//@ unwindset: read_sig=66; read_id=34; read_pubkey=34; read_hex=66; memcmp.0=34
-//@ encodes: Event::from_json, parse_json_event and every reader it calls
-//@ bounds: the valid 365-byte event text (order 1) cut at the concrete lengths [214, 227, 316], the last byte of each prefix arbitrary: no panic, consumed <= length
-//@ outside: prefix lengths not listed in an instance of this family (inputs shorter than 204 bytes are rejected up front)
-#[kani::proof]
-#[kani::unwind(32)]
-#[kani::stub(core::panic::Location::caller, stub_caller)]
-fn c03_event_prefix_o1_s2() {
-    event_prefix_at(EV_T1_O1, 214);
-    event_prefix_at(EV_T1_O1, 227);
-    event_prefix_at(EV_T1_O1, 316);
-}
-
-//@ harness: c03_event_prefix_o2_s2
-//@ tier: seeded
-//@ group: event_prefix
-//@ timeout: 1800
-//@ mem: 14
-//@ covers: none
-//@ unwindset: read_sig=66; read_id=34; read_pubkey=34; read_hex=66; memcmp.0=34
-//@ encodes: Event::from_json, parse_json_event and every reader it calls
-//@ bounds: the valid 365-byte event text (order 2: content before tags) cut at the concrete lengths [222, 266, 312], the last byte of each prefix arbitrary: no panic, consumed <= length
-//@ outside: prefix lengths not listed in an instance of this family (inputs shorter than 204 bytes are rejected up front)
-#[kani::proof]
-#[kani::unwind(32)]
-#[kani::stub(core::panic::Location::caller, stub_caller)]
-fn c03_event_prefix_o2_s2() {
+fn c03_event_prefix_o2_222() {
     event_prefix_at(EV_T1_O2, 222);
-    event_prefix_at(EV_T1_O2, 266);
-    event_prefix_at(EV_T1_O2, 312);
 }
 
-//@ harness: c03_event_prefix_o1_s3
+//@ harness: c03_event_prefix_o2_226
 //@ tier: seeded
 //@ group: event_prefix
-//@ timeout: 1800
+//@ timeout: 1500
 //@ mem: 14
 //@ covers: none
-//@ unwindset: read_sig=66; read_id=34; read_pubkey=34; read_hex=66; memcmp.0=34
+//@ unwindset: read_sig=66; read_id=34; read_pubkey=34; read_hex=66; memcmp.0=34; event_outlen_at=400; event_prefix_at=400; read_u64=22; read_kind=8; burn_string=12; eat_whitespace=6; json_unescape=8
 //@ encodes: Event::from_json, parse_json_event and every reader it calls
-//@ bounds: the valid 365-byte event text (order 1) cut at the concrete lengths [228, 313, 346], the last byte of each prefix arbitrary: no panic, consumed <= length
-//@ outside: prefix lengths not listed in an instance of this family (inputs shorter than 204 bytes are rejected up front)
+//@ bounds: the valid 365-byte event text (order 2: content before tags) cut after 226 bytes, the last byte of the prefix arbitrary (truncation and single-byte corruption at the cut): no panic, consumed <= length
+//@ outside: prefix lengths that are not an instance of this family (inputs shorter than 204 bytes are rejected up front)
 #[kani::proof]
-#[kani::unwind(32)]
+#[kani::unwind(8)]
 #[kani::stub(core::panic::Location::caller, stub_caller)]
-fn c03_event_prefix_o1_s3() {
-    event_prefix_at(EV_T1_O1, 228);
-    event_prefix_at(EV_T1_O1, 313);
-    event_prefix_at(EV_T1_O1, 346);
+fn c03_event_prefix_o2_226() {
+    event_prefix_at(EV_T1_O2, 226);
 }
 
-//@ harness: c03_event_prefix_o2_s3
-//@ tier: seeded
-//@ group: event_prefix
-//@ timeout: 1800
+//@ harness: c03_event_prefix_o2_230
+//@ tier: quick
+//@ timeout: 1500
 //@ mem: 14
 //@ covers: none
-//@ unwindset: read_sig=66; read_id=34; read_pubkey=34; read_hex=66; memcmp.0=34
+//@ unwindset: read_sig=66; read_id=34; read_pubkey=34; read_hex=66; memcmp.0=34; event_outlen_at=400; event_prefix_at=400; read_u64=22; read_kind=8; burn_string=12; eat_whitespace=6; json_unescape=8
 //@ encodes: Event::from_json, parse_json_event and every reader it calls
-//@ bounds: the valid 365-byte event text (order 2: content before tags) cut at the concrete lengths [220, 236, 349], the last byte of each prefix arbitrary: no panic, consumed <= length
-//@ outside: prefix lengths not listed in an instance of this family (inputs shorter than 204 bytes are rejected up front)
+//@ bounds: the valid 365-byte event text (order 2: content before tags) cut after 230 bytes, the last byte of the prefix arbitrary (truncation and single-byte corruption at the cut): no panic, consumed <= length
+//@ outside: prefix lengths that are not an instance of this family (inputs shorter than 204 bytes are rejected up front)
 #[kani::proof]
-#[kani::unwind(32)]
+#[kani::unwind(8)]
 #[kani::stub(core::panic::Location::caller, stub_caller)]
-fn c03_event_prefix_o2_s3() {
-    event_prefix_at(EV_T1_O2, 220);
-    event_prefix_at(EV_T1_O2, 236);
+fn c03_event_prefix_o2_230() {
+    event_prefix_at(EV_T1_O2, 230);
+}
+
+//@ harness: c03_event_prefix_o2_253
+//@ tier: seeded
+//@ group: event_prefix
+//@ timeout: 1500
+//@ mem: 14
+//@ covers: none
+//@ unwindset: read_sig=66; read_id=34; read_pubkey=34; read_hex=66; memcmp.0=34; event_outlen_at=400; event_prefix_at=400; read_u64=22; read_kind=8; burn_string=12; eat_whitespace=6; json_unescape=8
+//@ encodes: Event::from_json, parse_json_event and every reader it calls
+//@ bounds: the valid 365-byte event text (order 2: content before tags) cut after 253 bytes, the last byte of the prefix arbitrary (truncation and single-byte corruption at the cut): no panic, consumed <= length
+//@ outside: prefix lengths that are not an instance of this family (inputs shorter than 204 bytes are rejected up front)
+#[kani::proof]
+#[kani::unwind(8)]
+#[kani::stub(core::panic::Location::caller, stub_caller)]
+fn c03_event_prefix_o2_253() {
+    event_prefix_at(EV_T1_O2, 253);
+}
+
+//@ harness: c03_event_prefix_o2_254
+//@ tier: seeded
+//@ group: event_prefix
+//@ timeout: 1500
+//@ mem: 14
+//@ covers: none
+//@ unwindset: read_sig=66; read_id=34; read_pubkey=34; read_hex=66; memcmp.0=34; event_outlen_at=400; event_prefix_at=400; read_u64=22; read_kind=8; burn_string=12; eat_whitespace=6; json_unescape=8
+//@ encodes: Event::from_json, parse_json_event and every reader it calls
+//@ bounds: the valid 365-byte event text (order 2: content before tags) cut after 254 bytes, the last byte of the prefix arbitrary (truncation and single-byte corruption at the cut): no panic, consumed <= length
+//@ outside: prefix lengths that are not an instance of this family (inputs shorter than 204 bytes are rejected up front)
+#[kani::proof]
+#[kani::unwind(8)]
+#[kani::stub(core::panic::Location::caller, stub_caller)]
+fn c03_event_prefix_o2_254() {
+    event_prefix_at(EV_T1_O2, 254);
+}
+
+//@ harness: c03_event_prefix_o2_260
+//@ tier: seeded
+//@ group: event_prefix
+//@ timeout: 1500
+//@ mem: 14
+//@ covers: none
+//@ unwindset: read_sig=66; read_id=34; read_pubkey=34; read_hex=66; memcmp.0=34; event_outlen_at=400; event_prefix_at=400; read_u64=22; read_kind=8; burn_string=12; eat_whitespace=6; json_unescape=8
+//@ encodes: Event::from_json, parse_json_event and every reader it calls
+//@ bounds: the valid 365-byte event text (order 2: content before tags) cut after 260 bytes, the last byte of the prefix arbitrary (truncation and single-byte corruption at the cut): no panic, consumed <= length
+//@ outside: prefix lengths that are not an instance of this family (inputs shorter than 204 bytes are rejected up front)
+#[kani::proof]
+#[kani::unwind(8)]
+#[kani::stub(core::panic::Location::caller, stub_caller)]
+fn c03_event_prefix_o2_260() {
+    event_prefix_at(EV_T1_O2, 260);
+}
+
+//@ harness: c03_event_prefix_o2_300
+//@ tier: seeded
+//@ group: event_prefix
+//@ timeout: 1500
+//@ mem: 14
+//@ covers: none
+//@ unwindset: read_sig=66; read_id=34; read_pubkey=34; read_hex=66; memcmp.0=34; event_outlen_at=400; event_prefix_at=400; read_u64=22; read_kind=8; burn_string=12; eat_whitespace=6; json_unescape=8
+//@ encodes: Event::from_json, parse_json_event and every reader it calls
+//@ bounds: the valid 365-byte event text (order 2: content before tags) cut after 300 bytes, the last byte of the prefix arbitrary (truncation and single-byte corruption at the cut): no panic, consumed <= length
+//@ outside: prefix lengths that are not an instance of this family (inputs shorter than 204 bytes are rejected up front)
+#[kani::proof]
+#[kani::unwind(8)]
+#[kani::stub(core::panic::Location::caller, stub_caller)]
+fn c03_event_prefix_o2_300() {
+    event_prefix_at(EV_T1_O2, 300);
+}
+
+//@ harness: c03_event_prefix_o2_321
+//@ tier: seeded
+//@ group: event_prefix
+//@ timeout: 1500
+//@ mem: 14
+//@ covers: none
+//@ unwindset: read_sig=66; read_id=34; read_pubkey=34; read_hex=66; memcmp.0=34; event_outlen_at=400; event_prefix_at=400; read_u64=22; read_kind=8; burn_string=12; eat_whitespace=6; json_unescape=8
+//@ encodes: Event::from_json, parse_json_event and every reader it calls
+//@ bounds: the valid 365-byte event text (order 2: content before tags) cut after 321 bytes, the last byte of the prefix arbitrary (truncation and single-byte corruption at the cut): no panic, consumed <= length
+//@ outside: prefix lengths that are not an instance of this family (inputs shorter than 204 bytes are rejected up front)
+#[kani::proof]
+#[kani::unwind(8)]
+#[kani::stub(core::panic::Location::caller, stub_caller)]
+fn c03_event_prefix_o2_321() {
+    event_prefix_at(EV_T1_O2, 321);
+}
+
+//@ harness: c03_event_prefix_o2_325
+//@ tier: seeded
+//@ group: event_prefix
+//@ timeout: 1500
+//@ mem: 14
+//@ covers: none
+//@ unwindset: read_sig=66; read_id=34; read_pubkey=34; read_hex=66; memcmp.0=34; event_outlen_at=400; event_prefix_at=400; read_u64=22; read_kind=8; burn_string=12; eat_whitespace=6; json_unescape=8
+//@ encodes: Event::from_json, parse_json_event and every reader it calls
+//@ bounds: the valid 365-byte event text (order 2: content before tags) cut after 325 bytes, the last byte of the prefix arbitrary (truncation and single-byte corruption at the cut): no panic, consumed <= length
+//@ outside: prefix lengths that are not an instance of this family (inputs shorter than 204 bytes are rejected up front)
+#[kani::proof]
+#[kani::unwind(8)]
+#[kani::stub(core::panic::Location::caller, stub_caller)]
+fn c03_event_prefix_o2_325() {
+    event_prefix_at(EV_T1_O2, 325);
+}
+
+//@ harness: c03_event_prefix_o2_330
+//@ tier: seeded
+//@ group: event_prefix
+//@ timeout: 1500
+//@ mem: 14
+//@ covers: none
+//@ unwindset: read_sig=66; read_id=34; read_pubkey=34; read_hex=66; memcmp.0=34; event_outlen_at=400; event_prefix_at=400; read_u64=22; read_kind=8; burn_string=12; eat_whitespace=6; json_unescape=8
+//@ encodes: Event::from_json, parse_json_event and every reader it calls
+//@ bounds: the valid 365-byte event text (order 2: content before tags) cut after 330 bytes, the last byte of the prefix arbitrary (truncation and single-byte corruption at the cut): no panic, consumed <= length
+//@ outside: prefix lengths that are not an instance of this family (inputs shorter than 204 bytes are rejected up front)
+#[kani::proof]
+#[kani::unwind(8)]
+#[kani::stub(core::panic::Location::caller, stub_caller)]
+fn c03_event_prefix_o2_330() {
+    event_prefix_at(EV_T1_O2, 330);
+}
+
+//@ harness: c03_event_prefix_o2_336
+//@ tier: seeded
+//@ group: event_prefix
+//@ timeout: 1500
+//@ mem: 14
+//@ covers: none
+//@ unwindset: read_sig=66; read_id=34; read_pubkey=34; read_hex=66; memcmp.0=34; event_outlen_at=400; event_prefix_at=400; read_u64=22; read_kind=8; burn_string=12; eat_whitespace=6; json_unescape=8
+//@ encodes: Event::from_json, parse_json_event and every reader it calls
+//@ bounds: the valid 365-byte event text (order 2: content before tags) cut after 336 bytes, the last byte of the prefix arbitrary (truncation and single-byte corruption at the cut): no panic, consumed <= length
+//@ outside: prefix lengths that are not an instance of this family (inputs shorter than 204 bytes are rejected up front)
+#[kani::proof]
+#[kani::unwind(8)]
+#[kani::stub(core::panic::Location::caller, stub_caller)]
+fn c03_event_prefix_o2_336() {
+    event_prefix_at(EV_T1_O2, 336);
+}
+
+//@ harness: c03_event_prefix_o2_337
+//@ tier: seeded
+//@ group: event_prefix
+//@ timeout: 1500
+//@ mem: 14
+//@ covers: none
+//@ unwindset: read_sig=66; read_id=34; read_pubkey=34; read_hex=66; memcmp.0=34; event_outlen_at=400; event_prefix_at=400; read_u64=22; read_kind=8; burn_string=12; eat_whitespace=6; json_unescape=8
+//@ encodes: Event::from_json, parse_json_event and every reader it calls
+//@ bounds: the valid 365-byte event text (order 2: content before tags) cut after 337 bytes, the last byte of the prefix arbitrary (truncation and single-byte corruption at the cut): no panic, consumed <= length
+//@ outside: prefix lengths that are not an instance of this family (inputs shorter than 204 bytes are rejected up front)
+#[kani::proof]
+#[kani::unwind(8)]
+#[kani::stub(core::panic::Location::caller, stub_caller)]
+fn c03_event_prefix_o2_337() {
+    event_prefix_at(EV_T1_O2, 337);
+}
+
+//@ harness: c03_event_prefix_o2_340
+//@ tier: seeded
+//@ group: event_prefix
+//@ timeout: 1500
+//@ mem: 14
+//@ covers: none
+//@ unwindset: read_sig=66; read_id=34; read_pubkey=34; read_hex=66; memcmp.0=34; event_outlen_at=400; event_prefix_at=400; read_u64=22; read_kind=8; burn_string=12; eat_whitespace=6; json_unescape=8
+//@ encodes: Event::from_json, parse_json_event and every reader it calls
+//@ bounds: the valid 365-byte event text (order 2: content before tags) cut after 340 bytes, the last byte of the prefix arbitrary (truncation and single-byte corruption at the cut): no panic, consumed <= length
+//@ outside: prefix lengths that are not an instance of this family (inputs shorter than 204 bytes are rejected up front)
+#[kani::proof]
+#[kani::unwind(8)]
+#[kani::stub(core::panic::Location::caller, stub_caller)]
+fn c03_event_prefix_o2_340() {
+    event_prefix_at(EV_T1_O2, 340);
+}
+
+//@ harness: c03_event_prefix_o2_345
+//@ tier: seeded
+//@ group: event_prefix
+//@ timeout: 1500
+//@ mem: 14
+//@ covers: none
+//@ unwindset: read_sig=66; read_id=34; read_pubkey=34; read_hex=66; memcmp.0=34; event_outlen_at=400; event_prefix_at=400; read_u64=22; read_kind=8; burn_string=12; eat_whitespace=6; json_unescape=8
+//@ encodes: Event::from_json, parse_json_event and every reader it calls
+//@ bounds: the valid 365-byte event text (order 2: content before tags) cut after 345 bytes, the last byte of the prefix arbitrary (truncation and single-byte corruption at the cut): no panic, consumed <= length
+//@ outside: prefix lengths that are not an instance of this family (inputs shorter than 204 bytes are rejected up front)
+#[kani::proof]
+#[kani::unwind(8)]
+#[kani::stub(core::panic::Location::caller, stub_caller)]
+fn c03_event_prefix_o2_345() {
+    event_prefix_at(EV_T1_O2, 345);
+}
+
+//@ harness: c03_event_prefix_o2_349
+//@ tier: seeded
+//@ group: event_prefix
+//@ timeout: 1500
+//@ mem: 14
+//@ covers: none
+//@ unwindset: read_sig=66; read_id=34; read_pubkey=34; read_hex=66; memcmp.0=34; event_outlen_at=400; event_prefix_at=400; read_u64=22; read_kind=8; burn_string=12; eat_whitespace=6; json_unescape=8
+//@ encodes: Event::from_json, parse_json_event and every reader it calls
+//@ bounds: the valid 365-byte event text (order 2: content before tags) cut after 349 bytes, the last byte of the prefix arbitrary (truncation and single-byte corruption at the cut): no panic, consumed <= length
+//@ outside: prefix lengths that are not an instance of this family (inputs shorter than 204 bytes are rejected up front)
+#[kani::proof]
+#[kani::unwind(8)]
+#[kani::stub(core::panic::Location::caller, stub_caller)]
+fn c03_event_prefix_o2_349() {
     event_prefix_at(EV_T1_O2, 349);
 }
 
-//@ harness: c03_event_prefix_o1_s4
+//@ harness: c03_event_prefix_o2_350
 //@ tier: seeded
 //@ group: event_prefix
-//@ timeout: 1800
+//@ timeout: 1500
 //@ mem: 14
 //@ covers: none
-//@ unwindset: read_sig=66; read_id=34; read_pubkey=34; read_hex=66; memcmp.0=34
+//@ unwindset: read_sig=66; read_id=34; read_pubkey=34; read_hex=66; memcmp.0=34; event_outlen_at=400; event_prefix_at=400; read_u64=22; read_kind=8; burn_string=12; eat_whitespace=6; json_unescape=8
 //@ encodes: Event::from_json, parse_json_event and every reader it calls
-//@ bounds: the valid 365-byte event text (order 1) cut at the concrete lengths [220, 262, 354], the last byte of each prefix arbitrary: no panic, consumed <= length
-//@ outside: prefix lengths not listed in an instance of this family (inputs shorter than 204 bytes are rejected up front)
+//@ bounds: the valid 365-byte event text (order 2: content before tags) cut after 350 bytes, the last byte of the prefix arbitrary (truncation and single-byte corruption at the cut): no panic, consumed <= length
+//@ outside: prefix lengths that are not an instance of this family (inputs shorter than 204 bytes are rejected up front)
 #[kani::proof]
-#[kani::unwind(32)]
+#[kani::unwind(8)]
 #[kani::stub(core::panic::Location::caller, stub_caller)]
-fn c03_event_prefix_o1_s4() {
-    event_prefix_at(EV_T1_O1, 220);
-    event_prefix_at(EV_T1_O1, 262);
-    event_prefix_at(EV_T1_O1, 354);
+fn c03_event_prefix_o2_350() {
+    event_prefix_at(EV_T1_O2, 350);
 }
 
-//@ harness: c03_event_prefix_o2_s4
+//@ harness: c03_event_prefix_o2_355
 //@ tier: seeded
 //@ group: event_prefix
-//@ timeout: 1800
+//@ timeout: 1500
 //@ mem: 14
 //@ covers: none
-//@ unwindset: read_sig=66; read_id=34; read_pubkey=34; read_hex=66; memcmp.0=34
+//@ unwindset: read_sig=66; read_id=34; read_pubkey=34; read_hex=66; memcmp.0=34; event_outlen_at=400; event_prefix_at=400; read_u64=22; read_kind=8; burn_string=12; eat_whitespace=6; json_unescape=8
 //@ encodes: Event::from_json, parse_json_event and every reader it calls
-//@ bounds: the valid 365-byte event text (order 2: content before tags) cut at the concrete lengths [306, 352, 354], the last byte of each prefix arbitrary: no panic, consumed <= length
-//@ outside: prefix lengths not listed in an instance of this family (inputs shorter than 204 bytes are rejected up front)
+//@ bounds: the valid 365-byte event text (order 2: content before tags) cut after 355 bytes, the last byte of the prefix arbitrary (truncation and single-byte corruption at the cut): no panic, consumed <= length
+//@ outside: prefix lengths that are not an instance of this family (inputs shorter than 204 bytes are rejected up front)
 #[kani::proof]
-#[kani::unwind(32)]
+#[kani::unwind(8)]
 #[kani::stub(core::panic::Location::caller, stub_caller)]
-fn c03_event_prefix_o2_s4() {
-    event_prefix_at(EV_T1_O2, 306);
-    event_prefix_at(EV_T1_O2, 352);
-    event_prefix_at(EV_T1_O2, 354);
+fn c03_event_prefix_o2_355() {
+    event_prefix_at(EV_T1_O2, 355);
 }
 
-//@ harness: c03_event_prefix_o1_s5
+//@ harness: c03_event_prefix_o2_356
 //@ tier: seeded
 //@ group: event_prefix
-//@ timeout: 1800
+//@ timeout: 1500
 //@ mem: 14
 //@ covers: none
-//@ unwindset: read_sig=66; read_id=34; read_pubkey=34; read_hex=66; memcmp.0=34
+//@ unwindset: read_sig=66; read_id=34; read_pubkey=34; read_hex=66; memcmp.0=34; event_outlen_at=400; event_prefix_at=400; read_u64=22; read_kind=8; burn_string=12; eat_whitespace=6; json_unescape=8
 //@ encodes: Event::from_json, parse_json_event and every reader it calls
-//@ bounds: the valid 365-byte event text (order 1) cut at the concrete lengths [216, 217, 261], the last byte of each prefix arbitrary: no panic, consumed <= length
-//@ outside: prefix lengths not listed in an instance of this family (inputs shorter than 204 bytes are rejected up front)
+//@ bounds: the valid 365-byte event text (order 2: content before tags) cut after 356 bytes, the last byte of the prefix arbitrary (truncation and single-byte corruption at the cut): no panic, consumed <= length
+//@ outside: prefix lengths that are not an instance of this family (inputs shorter than 204 bytes are rejected up front)
 #[kani::proof]
-#[kani::unwind(32)]
+#[kani::unwind(8)]
 #[kani::stub(core::panic::Location::caller, stub_caller)]
-fn c03_event_prefix_o1_s5() {
-    event_prefix_at(EV_T1_O1, 216);
-    event_prefix_at(EV_T1_O1, 217);
-    event_prefix_at(EV_T1_O1, 261);
+fn c03_event_prefix_o2_356() {
+    event_prefix_at(EV_T1_O2, 356);
 }
 
-//@ harness: c03_event_prefix_o2_s5
+//@ harness: c03_event_prefix_o2_360
 //@ tier: seeded
 //@ group: event_prefix
-//@ timeout: 1800
+//@ timeout: 1500
 //@ mem: 14
 //@ covers: none
-//@ unwindset: read_sig=66; read_id=34; read_pubkey=34; read_hex=66; memcmp.0=34
+//@ unwindset: read_sig=66; read_id=34; read_pubkey=34; read_hex=66; memcmp.0=34; event_outlen_at=400; event_prefix_at=400; read_u64=22; read_kind=8; burn_string=12; eat_whitespace=6; json_unescape=8
 //@ encodes: Event::from_json, parse_json_event and every reader it calls
-//@ bounds: the valid 365-byte event text (order 2: content before tags) cut at the concrete lengths [239, 279, 347], the last byte of each prefix arbitrary: no panic, consumed <= length
-//@ outside: prefix lengths not listed in an instance of this family (inputs shorter than 204 bytes are rejected up front)
+//@ bounds: the valid 365-byte event text (order 2: content before tags) cut after 360 bytes, the last byte of the prefix arbitrary (truncation and single-byte corruption at the cut): no panic, consumed <= length
+//@ outside: prefix lengths that are not an instance of this family (inputs shorter than 204 bytes are rejected up front)
 #[kani::proof]
-#[kani::unwind(32)]
+#[kani::unwind(8)]
 #[kani::stub(core::panic::Location::caller, stub_caller)]
-fn c03_event_prefix_o2_s5() {
-    event_prefix_at(EV_T1_O2, 239);
-    event_prefix_at(EV_T1_O2, 279);
-    event_prefix_at(EV_T1_O2, 347);
+fn c03_event_prefix_o2_360() {
+    event_prefix_at(EV_T1_O2, 360);
+}
+
+//@ harness: c03_event_prefix_o2_362
+//@ tier: seeded
+//@ group: event_prefix
+//@ timeout: 1500
+//@ mem: 14
+//@ covers: none
+//@ unwindset: read_sig=66; read_id=34; read_pubkey=34; read_hex=66; memcmp.0=34; event_outlen_at=400; event_prefix_at=400; read_u64=22; read_kind=8; burn_string=12; eat_whitespace=6; json_unescape=8
+//@ encodes: Event::from_json, parse_json_event and every reader it calls
+//@ bounds: the valid 365-byte event text (order 2: content before tags) cut after 362 bytes, the last byte of the prefix arbitrary (truncation and single-byte corruption at the cut): no panic, consumed <= length
+//@ outside: prefix lengths that are not an instance of this family (inputs shorter than 204 bytes are rejected up front)
+#[kani::proof]
+#[kani::unwind(8)]
+#[kani::stub(core::panic::Location::caller, stub_caller)]
+fn c03_event_prefix_o2_362() {
+    event_prefix_at(EV_T1_O2, 362);
+}
+
+//@ harness: c03_event_prefix_o2_363
+//@ tier: seeded
+//@ group: event_prefix
+//@ timeout: 1500
+//@ mem: 14
+//@ covers: none
+//@ unwindset: read_sig=66; read_id=34; read_pubkey=34; read_hex=66; memcmp.0=34; event_outlen_at=400; event_prefix_at=400; read_u64=22; read_kind=8; burn_string=12; eat_whitespace=6; json_unescape=8
+//@ encodes: Event::from_json, parse_json_event and every reader it calls
+//@ bounds: the valid 365-byte event text (order 2: content before tags) cut after 363 bytes, the last byte of the prefix arbitrary (truncation and single-byte corruption at the cut): no panic, consumed <= length
+//@ outside: prefix lengths that are not an instance of this family (inputs shorter than 204 bytes are rejected up front)
+#[kani::proof]
+#[kani::unwind(8)]
+#[kani::stub(core::panic::Location::caller, stub_caller)]
+fn c03_event_prefix_o2_363() {
+    event_prefix_at(EV_T1_O2, 363);
+}
+
+//@ harness: c03_event_prefix_o2_364
+//@ tier: seeded
+//@ group: event_prefix
+//@ timeout: 1500
+//@ mem: 14
+//@ covers: none
+//@ unwindset: read_sig=66; read_id=34; read_pubkey=34; read_hex=66; memcmp.0=34; event_outlen_at=400; event_prefix_at=400; read_u64=22; read_kind=8; burn_string=12; eat_whitespace=6; json_unescape=8
+//@ encodes: Event::from_json, parse_json_event and every reader it calls
+//@ bounds: the valid 365-byte event text (order 2: content before tags) cut after 364 bytes, the last byte of the prefix arbitrary (truncation and single-byte corruption at the cut): no panic, consumed <= length
+//@ outside: prefix lengths that are not an instance of this family (inputs shorter than 204 bytes are rejected up front)
+#[kani::proof]
+#[kani::unwind(8)]
+#[kani::stub(core::panic::Location::caller, stub_caller)]
+fn c03_event_prefix_o2_364() {
+    event_prefix_at(EV_T1_O2, 364);
+}
+
+//@ harness: c03_event_prefix_o2_365
+//@ tier: seeded
+//@ group: event_prefix
+//@ timeout: 1500
+//@ mem: 14
+//@ covers: none
+//@ unwindset: read_sig=66; read_id=34; read_pubkey=34; read_hex=66; memcmp.0=34; event_outlen_at=400; event_prefix_at=400; read_u64=22; read_kind=8; burn_string=12; eat_whitespace=6; json_unescape=8
+//@ encodes: Event::from_json, parse_json_event and every reader it calls
+//@ bounds: the valid 365-byte event text (order 2: content before tags) cut after 365 bytes, the last byte of the prefix arbitrary (truncation and single-byte corruption at the cut): no panic, consumed <= length
+//@ outside: prefix lengths that are not an instance of this family (inputs shorter than 204 bytes are rejected up front)
+#[kani::proof]
+#[kani::unwind(8)]
+#[kani::stub(core::panic::Location::caller, stub_caller)]
+fn c03_event_prefix_o2_365() {
+    event_prefix_at(EV_T1_O2, 365);
 }
 
